@@ -3,6 +3,7 @@
    return path lengths, list taxa in sorted order, and agree with pairwise distance queries. *)
 From Coq Require Import List Arith Lia Bool Permutation Sorted.
 From PT Require Import Arena Spec Queries RepLib Traversals Paths Tril Stats Splits.
+From PT Require Matrix.
 Import ListNotations.
 
 (* ================================================================================================ *)
@@ -640,17 +641,17 @@ Lemma cache_ok_get s cc k : cache_ok s cc -> In k (rleaves s) -> edge_get cc k =
 Proof. intros [_ H] Hk. rewrite H. apply mem_nat_In in Hk. rewrite Hk. reflexivity. Qed.
 
 (* folding the caches of a list of children into the parent's cache *)
-Definition merge_children (cf : rtree -> cache) (cs : list rtree) (nc : cache) : cache :=
+Definition merge_caches (cf : rtree -> cache) (cs : list rtree) (nc : cache) : cache :=
   fold_left (fun nc c => ins_all (ladd O (elen (rid c))) (cf c) nc) cs nc.
 
-Lemma merge_children_sorted cf cs : forall nc, ksorted nc -> ksorted (merge_children cf cs nc).
+Lemma merge_caches_sorted cf cs : forall nc, ksorted nc -> ksorted (merge_caches cf cs nc).
 Proof.
   induction cs as [|c cs IH]; intros nc H; simpl; auto. apply IH. apply ins_all_sorted; auto.
 Qed.
 
-Lemma merge_children_get cf cs k :
+Lemma merge_caches_get cf cs k :
   NoDup (flat_map rleaves cs) -> (forall c, In c cs -> cache_ok c (cf c)) -> forall nc,
-  edge_get (merge_children cf cs nc) k =
+  edge_get (merge_caches cf cs nc) k =
   match find (fun c => mem_nat k (rleaves c)) cs with
   | Some c => Some (ladd O (elen (rid c)) (D c k))
   | None => edge_get nc k
@@ -658,7 +659,7 @@ Lemma merge_children_get cf cs k :
 Proof.
   induction cs as [|c cs IH]; intros Hnd Hok nc; simpl; [reflexivity|].
   simpl in Hnd. apply NoDup_app_iff in Hnd as (_ & Hnd & Hdis).
-  unfold merge_children in *. rewrite IH by (auto; intros; apply Hok; right; auto).
+  unfold merge_caches in *. rewrite IH by (auto; intros; apply Hok; right; auto).
   destruct (Hok c) as [Hs Hg]; [left; auto|].
   rewrite ins_all_get by (apply ksorted_NoDup; auto). rewrite Hg.
   destruct (mem_nat k (rleaves c)) eqn:E; auto.
@@ -676,12 +677,12 @@ Qed.
 
 Lemma cache_internal i cs cf :
   cs <> [] -> NoDup (ids (RT i cs)) -> (forall c, In c cs -> cache_ok c (cf c)) ->
-  cache_ok (RT i cs) (merge_children cf cs []).
+  cache_ok (RT i cs) (merge_caches cf cs []).
 Proof.
   intros Hne Hnd Hok. split.
-  - apply merge_children_sorted. unfold ksorted. simpl. constructor.
+  - apply merge_caches_sorted. unfold ksorted. simpl. constructor.
   - intros k. pose proof (NoDup_ids_children _ _ Hnd) as [Hcs _].
-    rewrite merge_children_get; auto; [|apply NoDup_forest_leaves; auto].
+    rewrite merge_caches_get; auto; [|apply NoDup_forest_leaves; auto].
     rewrite rleaves_children by auto.
     destruct (find _ cs) as [c|] eqn:F.
     + apply find_some in F as [Hc Hk]. apply mem_nat_In in Hk.
@@ -692,3 +693,1703 @@ Proof.
       apply mem_nat_In in E. apply in_flat_map in E as (c & Hc & Hk).
       apply (find_none _ _ F) in Hc. apply mem_nat_In in Hk. congruence.
 Qed.
+
+(* ---- one iteration of the main loop ------------------------------------------------------------------------- *)
+Definition kc (caches : list (nat * cache)) (ch : nat) : cache :=
+  match caches_get caches ch with Some cc => cc | None => [] end.
+
+Definition caches_ok (done : nat -> Prop) (caches : list (nat * cache)) : Prop :=
+  forall s, In s (subtrees r) -> done (rid s) ->
+    exists cc, caches_get caches (rid s) = Some cc /\ cache_ok s cc.
+
+(* the accumulator: a pair of leaves separated at a processed node holds its two downward distances,
+   a pair separated at a node still to come holds 0.0 *)
+Definition vec_ok (done : nat -> Prop) (vec : list L) : Prop :=
+  length vec = ncells t /\
+  (forall s c1 c2 a b, In s (subtrees r) -> done (rid s) -> branch s c1 c2 a b ->
+     nth_error vec (cell t a b) = Some (ladd O (l0 O) (ladd O (D s a) (D s b)))) /\
+  (forall s c1 c2 a b, In s (subtrees r) -> ~ done (rid s) -> branch s c1 c2 a b ->
+     nth_error vec (cell t a b) = Some (l0 O)).
+
+Definition Inv (done : nat -> Prop) (st : list L * list (nat * cache)) : Prop :=
+  vec_ok done (fst st) /\ caches_ok done (snd st).
+
+Lemma Inv_ext (P Q : nat -> Prop) st : (forall x, P x <-> Q x) -> Inv P st -> Inv Q st.
+Proof.
+  intros E [(H1 & H2 & H3) H4]. split; [split; [auto|split]|].
+  - intros s c1 c2 a b Hs Hd. apply H2; auto. apply E; auto.
+  - intros s c1 c2 a b Hs Hd. apply H3; auto. intros HP. apply Hd, E; auto.
+  - intros s Hs Hd. apply H4; auto. apply E; auto.
+Qed.
+
+Lemma nc_fold caches s :
+  In s (subtrees r) ->
+  (forall c, In c (rch s) -> exists cc, caches_get caches (rid c) = Some cc) ->
+  forall cs', incl cs' (rch s) -> forall nc,
+  foldM (nc_step t caches) (map rid cs') nc = Ok (merge_caches (fun c => kc caches (rid c)) cs' nc).
+Proof.
+  intros Hs Hc. induction cs' as [|c cs' IH]; intros Hin nc; simpl; [reflexivity|].
+  assert (Hcs : In c (rch s)) by (apply Hin; left; auto).
+  pose proof (sub_child s c Hs Hcs) as Hcr.
+  destruct (sub_node c Hcr) as (n & Hg & _ & _). destruct (Hc c Hcs) as (cc & Hcc).
+  unfold nc_step at 1. rewrite Hg. cbn [bind]. rewrite Hcc.
+  rewrite <- (sub_elen c n Hcr Hg). cbn [bind].
+  unfold merge_caches in *. rewrite IH by (intros x Hx; apply Hin; right; auto).
+  unfold kc at 3. rewrite Hcc. reflexivity.
+Qed.
+
+Lemma leaf_fold nc (f : nat -> L) l :
+  (forall a b, In (a, b) l -> edge_get nc a = Some (f a) /\ edge_get nc b = Some (f b) /\
+                              In a (rleaves r) /\ In b (rleaves r)) ->
+  forall vec,
+  foldM (leaf_step t nc) l vec =
+  Ok (apply_ups O (map (fun lf => (cell t (fst lf) (snd lf), ladd O (f (fst lf)) (f (snd lf)))) l) vec).
+Proof.
+  induction l as [|[a b] l IH]; intros H vec; simpl; [reflexivity|].
+  destruct (H a b) as (Ha & Hb & Hla & Hlb); [left; auto|].
+  unfold leaf_step at 1. cbn [fst snd]. rewrite Ha, Hb.
+  destruct (rk_spec a Hla) as [-> _]. destruct (rk_spec b Hlb) as [-> _]. cbn [bind].
+  rewrite IH by (intros; apply H; right; auto). reflexivity.
+Qed.
+
+Definition upd (s : rtree) (lf : nat * nat) : nat * L :=
+  (cell t (fst lf) (snd lf), ladd O (D s (fst lf)) (D s (snd lf))).
+
+Definition pair_leaves (caches : list (nat * cache)) (pc : rtree * rtree) : list (nat * nat) :=
+  list_prod (map fst (kc caches (rid (fst pc)))) (map fst (kc caches (rid (snd pc)))).
+
+Lemma apply_ups_app (u1 u2 : list (nat * L)) vec : apply_ups O (u1 ++ u2) vec = apply_ups O u2 (apply_ups O u1 vec).
+Proof. unfold apply_ups. apply fold_left_app. Qed.
+
+Lemma pair_fold caches nc s :
+  In s (subtrees r) ->
+  (forall c, In c (rch s) -> exists cc, caches_get caches (rid c) = Some cc /\ cache_ok c cc) ->
+  cache_ok s nc ->
+  forall ps, incl ps (pairs (rch s)) -> forall vec,
+  foldM (pair_step t caches nc) (map (fun pc => (rid (fst pc), rid (snd pc))) ps) vec =
+  Ok (apply_ups O (map (upd s) (flat_map (pair_leaves caches) ps)) vec).
+Proof.
+  intros Hs Hc Hnc. induction ps as [|[c1 c2] ps IH]; intros Hin vec; simpl; [reflexivity|].
+  assert (Hp : In (c1, c2) (pairs (rch s))) by (apply Hin; left; auto).
+  apply in_pairs in Hp as [H1 H2].
+  destruct (sub_node c1 (sub_child s c1 Hs H1)) as (n1 & Hg1 & _).
+  destruct (sub_node c2 (sub_child s c2 Hs H2)) as (n2 & Hg2 & _).
+  destruct (Hc c1 H1) as (cc1 & Hcc1 & Hok1). destruct (Hc c2 H2) as (cc2 & Hcc2 & Hok2).
+  unfold pair_step at 1. cbn [fst snd]. rewrite Hg1, Hg2. cbn [bind]. rewrite Hcc1, Hcc2.
+  rewrite (leaf_fold nc (D s)).
+  - cbn [bind]. rewrite IH by (intros x Hx; apply Hin; right; auto).
+    rewrite map_app, apply_ups_app.
+    replace (pair_leaves caches (c1, c2)) with (list_prod (map fst cc1) (map fst cc2)); [reflexivity|].
+    unfold pair_leaves, kc. cbn [fst snd]. rewrite Hcc1, Hcc2. reflexivity.
+  - intros a b Hab. apply in_prod_iff in Hab as [Ha Hb].
+    apply (cache_ok_keys c1 cc1 a Hok1) in Ha. apply (cache_ok_keys c2 cc2 b Hok2) in Hb.
+    assert (Has : In a (rleaves s)).
+    { eapply subtrees_leaves_incl; [apply rch_subtrees; exact H1|auto]. }
+    assert (Hbs : In b (rleaves s)).
+    { eapply subtrees_leaves_incl; [apply rch_subtrees; exact H2|auto]. }
+    repeat split.
+    + apply cache_ok_get; auto.
+    + apply cache_ok_get; auto.
+    + eapply subtrees_leaves_incl; eauto.
+    + eapply subtrees_leaves_incl; eauto.
+Qed.
+
+Lemma branch_same_children s c1 c2 c1' c2' a b :
+  NoDup (ids s) -> branch s c1 c2 a b -> branch s c1' c2' a b -> c1 = c1' /\ c2 = c2'.
+Proof.
+  intros Hnd H H'. destruct (branch_facts _ _ _ _ _ Hnd H) as (H1 & H2 & _).
+  destruct (branch_facts _ _ _ _ _ Hnd H') as (H1' & H2' & _).
+  destruct H as (_ & Ha & Hb). destruct H' as (_ & Ha' & Hb'). pose proof (rch_NoDup _ Hnd) as Hcs. split.
+  - apply (flat_map_NoDup_inj ids (rch s) c1 c1' a); auto; apply rleaves_incl_ids; auto.
+  - apply (flat_map_NoDup_inj ids (rch s) c2 c2' b); auto; apply rleaves_incl_ids; auto.
+Qed.
+
+Lemma branch_swap_false s c1 c2 c1' c2' a b :
+  NoDup (ids s) -> branch s c1 c2 a b -> branch s c1' c2' b a -> False.
+Proof.
+  intros Hnd H H'. destruct (branch_facts _ _ _ _ _ Hnd H) as (H1 & H2 & _).
+  destruct (branch_facts _ _ _ _ _ Hnd H') as (H1' & H2' & _).
+  destruct H as (Hp & Ha & Hb). destruct H' as (Hp' & Hb' & Ha'). pose proof (rch_NoDup _ Hnd) as Hcs.
+  assert (c1 = c2') by (apply (flat_map_NoDup_inj ids (rch s) c1 c2' a); auto; apply rleaves_incl_ids; auto).
+  assert (c2 = c1') by (apply (flat_map_NoDup_inj ids (rch s) c2 c1' b); auto; apply rleaves_incl_ids; auto).
+  subst. revert Hp'. apply pairs_asym; auto. apply NoDup_forest_children; auto.
+Qed.
+
+Section Step.
+Variables (caches : list (nat * cache)) (s : rtree).
+Hypothesis Hs : In s (subtrees r).
+Hypothesis Hc : forall c, In c (rch s) -> exists cc, caches_get caches (rid c) = Some cc /\ cache_ok c cc.
+
+Definition ups : list (nat * nat) := flat_map (pair_leaves caches) (pairs (rch s)).
+
+Lemma kc_ok c : In c (rch s) -> cache_ok c (kc caches (rid c)).
+Proof. intros H. destruct (Hc c H) as (cc & Hcc & Hok). unfold kc. rewrite Hcc. auto. Qed.
+
+Lemma ups_in a b : In (a, b) ups <-> exists c1 c2, branch s c1 c2 a b.
+Proof.
+  unfold ups. rewrite in_flat_map. split.
+  - intros ([c1 c2] & Hp & Hab). exists c1, c2. unfold pair_leaves in Hab. cbn [fst snd] in Hab.
+    apply in_prod_iff in Hab as [Ha Hb]. pose proof (in_pairs _ _ _ Hp) as [H1 H2].
+    split; auto. split.
+    + apply (cache_ok_keys c1 _ a (kc_ok c1 H1)); auto.
+    + apply (cache_ok_keys c2 _ b (kc_ok c2 H2)); auto.
+  - intros (c1 & c2 & Hp & Ha & Hb). exists (c1, c2). split; auto.
+    pose proof (in_pairs _ _ _ Hp) as [H1 H2]. unfold pair_leaves. cbn [fst snd]. apply in_prod_iff. split.
+    + apply (cache_ok_keys c1 _ a (kc_ok c1 H1)); auto.
+    + apply (cache_ok_keys c2 _ b (kc_ok c2 H2)); auto.
+Qed.
+
+Lemma ups_NoDup : NoDup ups.
+Proof.
+  pose proof (sub_nodup s Hs) as Hnd. pose proof (rch_NoDup _ Hnd) as Hcs.
+  unfold ups. apply NoDup_flat_map_disj.
+  - apply pairs_NoDup. apply NoDup_forest_children; auto.
+  - intros [c1 c2] Hp. pose proof (in_pairs _ _ _ Hp) as [H1 H2]. unfold pair_leaves. cbn [fst snd].
+    apply NoDup_list_prod'; apply ksorted_NoDup; [apply (kc_ok c1 H1)|apply (kc_ok c2 H2)].
+  - intros [c1 c2] [c1' c2'] [a b] Hp Hp' Hab Hab'.
+    assert (B : branch s c1 c2 a b).
+    { pose proof (in_pairs _ _ _ Hp) as [H1 H2]. unfold pair_leaves in Hab. cbn [fst snd] in Hab.
+      apply in_prod_iff in Hab as [Ha Hb]. split; auto. split.
+      - apply (cache_ok_keys c1 _ a (kc_ok c1 H1)); auto.
+      - apply (cache_ok_keys c2 _ b (kc_ok c2 H2)); auto. }
+    assert (B' : branch s c1' c2' a b).
+    { pose proof (in_pairs _ _ _ Hp') as [H1 H2]. unfold pair_leaves in Hab'. cbn [fst snd] in Hab'.
+      apply in_prod_iff in Hab' as [Ha Hb]. split; auto. split.
+      - apply (cache_ok_keys c1' _ a (kc_ok c1' H1)); auto.
+      - apply (cache_ok_keys c2' _ b (kc_ok c2' H2)); auto. }
+    destruct (branch_same_children _ _ _ _ _ _ _ Hnd B B') as [-> ->]. reflexivity.
+Qed.
+
+Lemma branch_leaves s' c1 c2 a b : In s' (subtrees r) -> branch s' c1 c2 a b ->
+  In a (rleaves r) /\ In b (rleaves r) /\ a <> b.
+Proof.
+  intros Hs' B. destruct (branch_facts _ _ _ _ _ (sub_nodup s' Hs') B) as (_ & _ & _ & Hne & _ & _ & Ha & Hb).
+  repeat split; auto; eapply subtrees_leaves_incl; eauto.
+Qed.
+
+Lemma ups_cells_NoDup : NoDup (map fst (map (upd s) ups)).
+Proof.
+  rewrite map_map. apply NoDup_map_inj_in; [apply ups_NoDup|].
+  intros [a b] [a' b'] H H' E. unfold upd in E. cbn [fst snd] in E.
+  apply ups_in in H as (c1 & c2 & B). apply ups_in in H' as (c1' & c2' & B').
+  destruct (branch_leaves s _ _ _ _ Hs B) as (Ha & Hb & Hne).
+  destruct (branch_leaves s _ _ _ _ Hs B') as (Ha' & Hb' & Hne').
+  destruct (cell_inj a b a' b' Ha Hb Ha' Hb' Hne Hne' E) as [[-> ->]|[-> ->]]; auto.
+  exfalso. eapply (branch_swap_false s); eauto. apply sub_nodup; auto.
+Qed.
+
+Lemma ups_hit vec c1 c2 a b h :
+  branch s c1 c2 a b -> nth_error vec (cell t a b) = Some h ->
+  nth_error (apply_ups O (map (upd s) ups) vec) (cell t a b) = Some (ladd O h (ladd O (D s a) (D s b))).
+Proof.
+  intros B Hh. apply apply_ups_hit; auto; [apply ups_cells_NoDup|].
+  change (cell t a b, ladd O (D s a) (D s b)) with (upd s (a, b)). apply in_map. apply ups_in. eauto.
+Qed.
+
+Lemma ups_miss vec s' c1 c2 a b :
+  In s' (subtrees r) -> s' <> s -> branch s' c1 c2 a b ->
+  nth_error (apply_ups O (map (upd s) ups) vec) (cell t a b) = nth_error vec (cell t a b).
+Proof.
+  intros Hs' Hne B. apply apply_ups_other. rewrite map_map. intros Hin.
+  apply in_map_iff in Hin as ([a' b'] & E & Hin). unfold upd in E. cbn [fst snd] in E.
+  apply ups_in in Hin as (c1' & c2' & B').
+  destruct (branch_leaves s' _ _ _ _ Hs' B) as (Ha & Hb & Hab).
+  destruct (branch_leaves s _ _ _ _ Hs B') as (Ha' & Hb' & Hab').
+  apply Hne. destruct (cell_inj a' b' a b Ha' Hb' Ha Hb Hab' Hab E) as [[-> ->]|[-> ->]].
+  - eapply (branch_unique r s s'); eauto.
+  - eapply (branch_unique r s s'); eauto.
+Qed.
+
+End Step.
+
+Lemma dm_step_ok (done : nat -> Prop) st s :
+  In s (subtrees r) -> ~ done (rid s) -> (forall c, In c (rch s) -> done (rid c)) ->
+  Inv done st ->
+  exists st', dm_step t st (rid s) = Ok st' /\ Inv (fun x => x = rid s \/ done x) st'.
+Proof.
+  intros Hs Hnd Hch [(Hlen & HV2 & HV3) HC]. destruct st as [vec caches]. cbn [fst snd] in *.
+  assert (Hc : forall c, In c (rch s) -> exists cc, caches_get caches (rid c) = Some cc /\ cache_ok c cc).
+  { intros c Hcs. apply HC; auto. eapply sub_child; eauto. }
+  destruct (sub_node s Hs) as (n & Hg & _ & Hcn). pose proof (sub_tip s n Hs Hg) as Htip.
+  pose proof (sub_nodup s Hs) as Hsn.
+  set (nc0 := if is_tip n then [(rid s, l0 O)] else [] : cache).
+  set (nc := merge_caches (fun c => kc caches (rid c)) (rch s) nc0).
+  assert (Hnc : cache_ok s nc).
+  { subst nc nc0. destruct s as [i cs]. cbn [rch rid] in *. destruct cs as [|c0 cs0].
+    - rewrite Htip. simpl. apply cache_tip.
+    - rewrite Htip. apply cache_internal; [discriminate|auto|].
+      intros c Hcs. apply (kc_ok caches (RT i (c0 :: cs0))); auto. }
+  exists (apply_ups O (map (upd s) (ups caches s)) vec, (rid s, nc) :: caches). split.
+  - unfold dm_step. rewrite Hg. cbn [bind]. rewrite Hcn. fold nc0.
+    rewrite (nc_fold caches s Hs) by (try apply incl_refl; intros c Hcs; destruct (Hc c Hcs) as (cc & ? & _); eauto).
+    cbn [bind]. fold nc. rewrite pairs_map.
+    rewrite (pair_fold caches nc s Hs Hc Hnc) by apply incl_refl. reflexivity.
+  - split; cbn [fst snd].
+    + split; [rewrite apply_ups_length; auto|]. split.
+      * intros s' c1 c2 a b Hs' Hd B. destruct (Nat.eq_dec (rid s') (rid s)) as [E|Hne].
+        -- assert (s' = s) by (apply (subtrees_rid_inj r); auto). subst s'.
+           eapply ups_hit; eauto.
+        -- rewrite (ups_miss caches s Hs Hc vec s' c1 c2 a b); auto; [|congruence].
+           eapply HV2; eauto. destruct Hd as [E|Hd]; auto. congruence.
+      * intros s' c1 c2 a b Hs' Hd B.
+        assert (Hne : s' <> s) by (intros ->; apply Hd; left; auto).
+        rewrite (ups_miss caches s Hs Hc vec s' c1 c2 a b); auto.
+        eapply HV3; eauto.
+    + intros s' Hs' Hd. cbn [caches_get]. destruct (Nat.eqb_spec (rid s) (rid s')) as [E|Hne].
+      * exists nc. split; auto. assert (s' = s) by (apply (subtrees_rid_inj r); auto). subst. auto.
+      * apply HC; auto. destruct Hd as [E|Hd]; auto. congruence.
+Qed.
+
+(* ---- the whole loop ------------------------------------------------------------------------------------------ *)
+Lemma foldM_app {A S} (g : S -> A -> outcome S) l1 l2 : forall s,
+  foldM g (l1 ++ l2) s = (s' <- foldM g l1 s ;; foldM g l2 s').
+Proof.
+  induction l1 as [|x l1 IH]; intros s; simpl; [reflexivity|].
+  destruct (g s x); simpl; auto.
+Qed.
+
+Lemma Inv_init : Inv (fun _ => False) (repeat (l0 O) (ncells t), []).
+Proof.
+  split; cbn [fst snd]; [split; [apply repeat_length|split]|].
+  - intros s c1 c2 a b _ [].
+  - intros s c1 c2 a b Hs _ B. destruct (branch_leaves s c1 c2 a b Hs B) as (Ha & Hb & Hne).
+    pose proof (cell_lt a b Ha Hb Hne) as Hlt.
+    rewrite (nth_error_nth' _ (l0 O)) by (rewrite repeat_length; auto). f_equal.
+    apply nth_repeat.
+  - intros s _ [].
+Qed.
+
+Lemma dm_fold_ok l : child_first r l ->
+  exists st, foldM (dm_step t) l (repeat (l0 O) (ncells t), []) = Ok st /\ Inv (fun x => In x l) st.
+Proof.
+  induction l as [|v l IH] using rev_ind; intros Hcf.
+  - eexists. split; [reflexivity|]. eapply Inv_ext; [|apply Inv_init]. simpl. tauto.
+  - destruct (IH (child_first_prefix _ _ _ Hcf)) as (st & Hf & HI).
+    destruct (Hcf l v [] eq_refl) as (Hv & s & Hs & Hsv & Hch). subst v.
+    destruct (dm_step_ok (fun x => In x l) st s Hs Hv Hch HI) as (st' & Hst & HI').
+    exists st'. split.
+    + rewrite foldM_app, Hf. cbn [bind foldM]. rewrite Hst. reflexivity.
+    + eapply Inv_ext; [|exact HI']. intros x. rewrite in_app_iff. simpl. intuition.
+Qed.
+
+(* item 2: the bottom-up invariant at the end of the loop *)
+Theorem dm_run :
+  exists vec caches,
+    foldM (dm_step t) (rev (level r)) (repeat (l0 O) (ncells t), []) = Ok (vec, caches) /\
+    length vec = ncells t /\
+    (forall s c1 c2 a b, In s (subtrees r) -> branch s c1 c2 a b ->
+       nth_error vec (cell t a b) = Some (ladd O (l0 O) (ladd O (D s a) (D s b)))) /\
+    (forall s, In s (subtrees r) -> exists cc, caches_get caches (rid s) = Some cc /\ cache_ok s cc).
+Proof.
+  destruct (dm_fold_ok (rev (level r)) (rev_level_child_first r HN)) as ([vec caches] & Hf & (Hl & HV2 & _) & HC).
+  cbn [fst snd] in *. exists vec, caches. split; auto. split; auto.
+  assert (Hall : forall s, In s (subtrees r) -> In (rid s) (rev (level r))).
+  { intros s Hs. rewrite <- in_rev. eapply Permutation_in; [apply pre_level_perm|].
+    rewrite <- map_rid_subtrees. apply in_map; auto. }
+  split.
+  - intros s c1 c2 a b Hs B. eapply HV2; eauto.
+  - intros s Hs. apply HC; auto.
+Qed.
+
+(* ---- the result of distance_matrix ----------------------------------------------------------------------------- *)
+Lemma mapM_err {A B} (g : A -> outcome B) (f : A -> B) e l :
+  (forall x, In x l -> g x = Ok (f x) \/ g x = Err e) -> (exists x, In x l /\ g x = Err e) ->
+  mapM g l = Err e.
+Proof.
+  induction l as [|y l IH]; intros H (x & Hx & Hg); [destruct Hx|]. simpl.
+  destruct (H y (or_introl eq_refl)) as [E|E]; rewrite E; cbn [bind]; auto.
+  destruct Hx as [->|Hx]; [congruence|].
+  rewrite IH; auto. intros z Hz. apply H. right; auto. eauto.
+Qed.
+
+Lemma leaf_name_cases i : In i (rleaves r) ->
+  match lname t i with Some x => leaf_name t i = Ok x | None => leaf_name t i = Err UnnamedLeaves end.
+Proof.
+  intros Hi. destruct (rep_leaf_live t root r HR i Hi) as (n & Hg & Hn).
+  unfold leaf_name, lname. rewrite Hg, Hn. destruct (nname n); reflexivity.
+Qed.
+
+Lemma n_leaves_pos : n_leaves t <> 0.
+Proof.
+  rewrite (rep_n_leaves_good t root r HR HN HL). pose proof (Splits.rleaves_nonempty r).
+  destruct (rleaves r); simpl; congruence.
+Qed.
+
+Lemma dm_reduce :
+  distance_matrix O t =
+  (names <- mapM (leaf_name t) (leaf_order t) ;;
+   '(vec, _) <- foldM (dm_step t) (rev (level r)) (repeat (l0 O) (ncells t), []) ;;
+   Ok (mkDmat (length names) names vec)).
+Proof.
+  rewrite dm_unfold. pose proof n_leaves_pos as Hn. apply Nat.eqb_neq in Hn. rewrite Hn.
+  destruct (mapM (leaf_name t) (leaf_order t)); cbn [bind]; auto.
+  rewrite (Stats.get_root_refines t root r HR HL). cbn [bind].
+  rewrite (levelorder_refines t None 0 root r HR HN). reflexivity.
+Qed.
+
+(* item 6 *)
+Theorem dm_unnamed : (exists i, In i (rleaves r) /\ lname t i = None) ->
+  distance_matrix O t = Err UnnamedLeaves.
+Proof.
+  intros (i & Hi & Hnone). rewrite dm_reduce.
+  rewrite (mapM_err (leaf_name t) (lab t) UnnamedLeaves); [reflexivity| |].
+  - intros x Hx. apply (Permutation_in _ leaf_order_perm) in Hx.
+    pose proof (leaf_name_cases x Hx) as H. unfold lab. destruct (lname t x); auto.
+  - exists i. split.
+    + eapply Permutation_in; [apply Permutation_sym, leaf_order_perm|auto].
+    + pose proof (leaf_name_cases i Hi) as H. rewrite Hnone in H. auto.
+Qed.
+
+Section Named.
+Hypothesis Hnamed : forall i, In i (rleaves r) -> lname t i <> None.
+
+Lemma leaf_named i : In i (rleaves r) -> exists n, get t i = Ok n /\ nname n = Some (lab t i).
+Proof.
+  intros Hi. destruct (rep_leaf_live t root r HR i Hi) as (n & Hg & Hn). exists n. split; auto.
+  specialize (Hnamed i Hi). unfold lab. unfold lname in *. rewrite Hn in *. destruct (nname n); congruence.
+Qed.
+
+Lemma names_ok : mapM (leaf_name t) (leaf_order t) = Ok (map (lab t) (leaf_order t)).
+Proof.
+  apply Stats.mapM_ok. intros x Hx. apply (Permutation_in _ leaf_order_perm) in Hx.
+  pose proof (leaf_name_cases x Hx) as H. specialize (Hnamed x Hx). unfold lab.
+  destruct (lname t x); congruence.
+Qed.
+
+(* item 1 (taxa): the reported taxa are the sorted leaf names *)
+Lemma taxa_sorted : map (lab t) (leaf_order t) = stable_sort str_leb (map (lab t) (get_leaves t)).
+Proof.
+  unfold leaf_order. rewrite <- map_stable_sort. f_equal. apply stable_sort_ext_in.
+  intros a b Ha Hb. apply (rep_in_get_leaves t root r HR HL) in Ha, Hb.
+  destruct (leaf_named a Ha) as (na & Hga & Hna). destruct (leaf_named b Hb) as (nb & Hgb & Hnb).
+  unfold name_leb. rewrite Hga, Hgb, Hna, Hnb. reflexivity.
+Qed.
+
+Theorem dm_result :
+  exists m, distance_matrix O t = Ok m /\
+    mtaxa m = stable_sort str_leb (map (lab t) (get_leaves t)) /\
+    msize m = n_leaves t /\
+    length (mcells m) = n_leaves t * (n_leaves t - 1) / 2 /\
+    (forall s c1 c2 a b, In s (subtrees r) -> branch s c1 c2 a b ->
+       nth_error (mcells m) (tril_idx (rk t a) (rk t b)) = Some (ladd O (l0 O) (ladd O (D s a) (D s b)))).
+Proof.
+  destruct dm_run as (vec & caches & Hf & Hl & Hcells & _).
+  exists (mkDmat (length (map (lab t) (leaf_order t))) (map (lab t) (leaf_order t)) vec).
+  split; [rewrite dm_reduce, names_ok; cbn [bind]; rewrite Hf; reflexivity|].
+  cbn [mtaxa msize mcells]. split; [apply taxa_sorted|]. split; [rewrite map_length; apply leaf_order_length|].
+  split; auto.
+Qed.
+
+End Named.
+
+(* item 6: whatever the names and lengths, no panic and no fuel exhaustion *)
+Theorem dm_no_panic : (exists m, distance_matrix O t = Ok m) \/ distance_matrix O t = Err UnnamedLeaves.
+Proof.
+  destruct (existsb (fun i => match lname t i with None => true | Some _ => false end) (rleaves r)) eqn:E.
+  - right. apply dm_unnamed. apply existsb_exists in E as (i & Hi & Hn). exists i. split; auto.
+    destruct (lname t i); [discriminate|auto].
+  - left. destruct dm_result as (m & Hm & _); eauto.
+    intros i Hi Hn. assert (existsb (fun i => match lname t i with None => true | Some _ => false end) (rleaves r) = true); [|congruence].
+    apply existsb_exists. exists i. split; auto. rewrite Hn. auto.
+Qed.
+
+(* ---- D is a path sum; connection with root paths and get_distance ------------------------------------------------ *)
+Definition Dpath (q : list nat) : L := fold_right (fun y acc => ladd O (elen y) acc) (l0 O) q.
+
+Lemma Dfirst_notin x cs : (forall c, In c cs -> ~ In x (ids c)) -> Dfirst D x cs = l0 O.
+Proof.
+  induction cs as [|c cs IH]; intros H; cbn [Dfirst]; [reflexivity|].
+  destruct (mem_nat x (ids c)) eqn:E.
+  - apply mem_nat_In in E. exfalso. apply (H c); simpl; auto.
+  - apply IH. intros c' Hc'. apply H. right; auto.
+Qed.
+
+Lemma D_rpath : forall s x q, NoDup (ids s) -> rpath x s = Some q -> D s x = Dpath (tl q).
+Proof.
+  induction s as [i cs IH] using RepLib.rtree_ind'. intros x q Hnd Hq.
+  pose proof (NoDup_ids_children _ _ Hnd) as [Hcs Hi].
+  rewrite rpath_RT in Hq. rewrite D_RT. destruct (Nat.eqb_spec i x) as [->|Hne].
+  - injection Hq as <-. simpl. apply Dfirst_notin. intros c Hc Hx. apply Hi. apply in_flat_map. eauto.
+  - destruct (rpath_first x cs) as [qc|] eqn:E; [|discriminate]. simpl in Hq. injection Hq as <-.
+    apply rpath_first_Some in E as (c & Hc & Hqc). cbn [tl].
+    rewrite (Dfirst_child x cs c Hcs Hc) by (eapply rpath_In; eauto).
+    rewrite Forall_forall in IH. rewrite (IH c Hc x qc) by (auto; eapply NoDup_flat_map_in; eauto).
+    destruct (rpath_head _ _ _ Hqc) as (q' & ->). reflexivity.
+Qed.
+
+Lemma sub_rpath : forall r0 s, NoDup (ids r0) -> In s (subtrees r0) ->
+  exists pc, forall x q, rpath x s = Some q -> rpath x r0 = Some (pc ++ q).
+Proof.
+  induction r0 as [i cs IH] using RepLib.rtree_ind'. intros s Hnd Hs.
+  rewrite subtrees_RT in Hs. destruct Hs as [<-|Hs]; [exists []; auto|].
+  apply in_flat_map in Hs as (c & Hc & Hs). pose proof (NoDup_ids_children _ _ Hnd) as [Hcs Hi].
+  rewrite Forall_forall in IH. destruct (IH c Hc s) as (pc & Hpc); auto; [eapply NoDup_flat_map_in; eauto|].
+  exists (i :: pc). intros x q Hq. specialize (Hpc x q Hq). rewrite rpath_RT.
+  destruct (Nat.eqb_spec i x) as [->|Hne].
+  - exfalso. apply Hi. apply in_flat_map. exists c. split; auto. eapply rpath_In; eauto.
+  - rewrite (rpath_first_unique x cs c _ Hcs Hc Hpc). reflexivity.
+Qed.
+
+Lemma cpl_heads x y qa qb : x <> y -> cpl (x :: qa) (y :: qb) = 0.
+Proof. intros H. simpl. apply Nat.eqb_neq in H. rewrite H. reflexivity. Qed.
+
+Lemma lcp_heads x y qa qb : x <> y -> lcp (x :: qa) (y :: qb) = [].
+Proof. intros H. simpl. apply Nat.eqb_neq in H. rewrite H. reflexivity. Qed.
+
+Lemma skipn_app_exact {A} (l1 l2 : list A) : skipn (length l1) (l1 ++ l2) = l2.
+Proof. induction l1; simpl; auto. Qed.
+
+(* at the separating node s of a and b: the two downward paths qa, qb (below s, ending in a and b) carry
+   the two cached distances; get_distance walks exactly qa ++ qb; s is the reported common ancestor *)
+Lemma branch_paths s c1 c2 a b : In s (subtrees r) -> branch s c1 c2 a b ->
+  exists qa qb, D s a = Dpath qa /\ D s b = Dpath qb /\
+    qa <> [] /\ qb <> [] /\ (forall x, In x (qa ++ qb) -> In x (ids r) /\ x <> root) /\
+    get_distance O t a b = Ok (path_len O (map (edge_of t) (qa ++ qb)), length qa + length qb) /\
+    get_common_ancestor t a b = Ok (rid s).
+Proof.
+  intros Hs B. pose proof (sub_nodup s Hs) as Hnd.
+  destruct (branch_facts _ _ _ _ _ Hnd B) as (H1 & H2 & Hne & Hab & Has & Hbs & _).
+  destruct B as (_ & Ha & Hb). apply rleaves_incl_ids in Ha, Hb.
+  apply rpath_total in Ha as (qa & Hqa). apply rpath_total in Hb as (qb & Hqb).
+  destruct s as [i cs]. cbn [rch rid] in *. pose proof (NoDup_ids_children _ _ Hnd) as [Hcs Hi].
+  assert (Hsa : rpath a (RT i cs) = Some (i :: qa)).
+  { rewrite rpath_RT. destruct (Nat.eqb_spec i a) as [->|_].
+    - exfalso. apply Hi. apply in_flat_map. exists c1. split; auto. eapply rpath_In; eauto.
+    - rewrite (rpath_first_unique a cs c1 _ Hcs H1 Hqa). reflexivity. }
+  assert (Hsb : rpath b (RT i cs) = Some (i :: qb)).
+  { rewrite rpath_RT. destruct (Nat.eqb_spec i b) as [->|_].
+    - exfalso. apply Hi. apply in_flat_map. exists c2. split; auto. eapply rpath_In; eauto.
+    - rewrite (rpath_first_unique b cs c2 _ Hcs H2 Hqb). reflexivity. }
+  exists qa, qb.
+  split; [rewrite (D_rpath _ _ _ Hnd Hsa); reflexivity|].
+  split; [rewrite (D_rpath _ _ _ Hnd Hsb); reflexivity|].
+  destruct (rpath_head _ _ _ Hqa) as (qa' & Ea). destruct (rpath_head _ _ _ Hqb) as (qb' & Eb).
+  split; [rewrite Ea; discriminate|]. split; [rewrite Eb; discriminate|].
+  assert (Hrid : rid c1 <> rid c2) by (intros E; apply Hne; eapply rid_inj_in; eauto).
+  destruct (sub_rpath r _ HN Hs) as (pc & Hpc).
+  pose proof (Hpc _ _ Hsa) as Hra. pose proof (Hpc _ _ Hsb) as Hrb.
+  pose proof (Hpc i [i] (rpath_root (RT i cs))) as Hri.
+  assert (Hcpl : cpl (pc ++ i :: qa) (pc ++ i :: qb) = length (pc ++ [i])).
+  { rewrite cpl_app. simpl. rewrite Nat.eqb_refl, Ea, Eb, cpl_heads by auto. rewrite app_length. simpl. lia. }
+  assert (Hin_r : forall x, In x (qa ++ qb) -> In x (ids r) /\ x <> root).
+  { assert (Hroot : forall q x, rpath x r = Some (pc ++ i :: q) -> forall y, In y q -> In y (ids r) /\ y <> root).
+    { intros q x Hx y Hy. split.
+      - apply (rpath_incl _ _ _ Hx). apply in_or_app. right. right. auto.
+      - pose proof (rpath_NoDup _ _ _ HN Hx) as Hn. destruct (rpath_head _ _ _ Hx) as (q' & Eq).
+        rewrite (Rep_rid _ _ _ _ _ HR) in Eq. intros ->.
+        change (pc ++ i :: q) with (pc ++ [i] ++ q) in *. rewrite app_assoc in *.
+        apply NoDup_app_iff in Hn as (_ & _ & Hd). apply (Hd root); auto.
+        destruct pc; simpl in *; injection Eq as -> _; auto. }
+    intros x Hx. apply in_app_or in Hx as [Hx|Hx]; [eapply (Hroot qa a)|eapply (Hroot qb b)]; eauto. }
+  split; auto.
+  assert (Hina : In a (ids r)) by (eapply rpath_In; eauto).
+  assert (Hinb : In b (ids r)) by (eapply rpath_In; eauto).
+  split.
+  - destruct (dist_refines O t root r a b HR HN Hina Hinb) as (pa & pb & Hpa & Hpb & Hd).
+    rewrite Hra in Hpa. rewrite Hrb in Hpb. injection Hpa as <-. injection Hpb as <-.
+    cbv zeta in Hd. rewrite Hcpl in Hd.
+    change (pc ++ i :: qa) with (pc ++ [i] ++ qa) in Hd. change (pc ++ i :: qb) with (pc ++ [i] ++ qb) in Hd.
+    rewrite !app_assoc, !skipn_app_exact in Hd. exact Hd.
+  - destruct (lca_is_lcp t root r a b _ _ HR HN Hra Hrb) as (c & Hc & Hrc). rewrite Hc. f_equal.
+    rewrite lcp_app in Hrc. simpl in Hrc. rewrite Nat.eqb_refl, Ea, Eb, lcp_heads in Hrc by auto.
+    destruct (rpath_last _ _ _ Hrc) as (q' & Eq). apply app_last_inj in Eq as [_ <-]. reflexivity.
+Qed.
+
+(* 1.0 + (1.0 + ... + 0.0), k times: the distance along k branches without lengths *)
+Definition lrep (k : nat) : L := Nat.iter k (ladd O (l1 O)) (l0 O).
+
+Lemma Dpath_topo q : (forall x, In x q -> edge_of t x = None) -> Dpath q = lrep (length q).
+Proof.
+  induction q as [|x q IH]; intros H; simpl; [reflexivity|].
+  rewrite IH by (intros; apply H; right; auto). unfold elen. rewrite (H x) by (left; auto). reflexivity.
+Qed.
+
+Lemma NoDup_map_inj {A B} (f : A -> B) l x y : NoDup (map f l) -> In x l -> In y l -> f x = f y -> x = y.
+Proof.
+  induction l as [|z l IH]; intros Hnd Hx Hy E; [destruct Hx|]. simpl in Hnd.
+  apply NoDup_cons_iff in Hnd as [Hz Hnd]. destruct Hx as [->|Hx], Hy as [->|Hy]; auto.
+  - exfalso. apply Hz. rewrite E. apply in_map; auto.
+  - exfalso. apply Hz. rewrite <- E. apply in_map; auto.
+Qed.
+
+(* ---- algebra: commutative monoid laws as explicit hypotheses ---------------------------------------------------------- *)
+Section Laws.
+Hypothesis ladd_assoc : forall x y z, ladd O x (ladd O y z) = ladd O (ladd O x y) z.
+Hypothesis ladd_comm : forall x y, ladd O x y = ladd O y x.
+Hypothesis ladd_0_l : forall x, ladd O (l0 O) x = x.
+
+Lemma ladd_0_r x : ladd O x (l0 O) = x.
+Proof. rewrite ladd_comm. apply ladd_0_l. Qed.
+
+Lemma fold_left_right (l : list L) : forall a,
+  fold_left (ladd O) l a = ladd O a (fold_right (ladd O) (l0 O) l).
+Proof.
+  induction l as [|x l IH]; intros a; simpl; [symmetry; apply ladd_0_r|].
+  rewrite IH, ladd_assoc. reflexivity.
+Qed.
+
+Lemma fold_right_ladd_app (la lb : list L) :
+  fold_right (ladd O) (l0 O) (la ++ lb) = ladd O (fold_right (ladd O) (l0 O) la) (fold_right (ladd O) (l0 O) lb).
+Proof.
+  induction la as [|x la IH]; simpl; [symmetry; apply ladd_0_l|]. rewrite IH, ladd_assoc. reflexivity.
+Qed.
+
+Lemma Dpath_fold q : Dpath q = fold_right (ladd O) (l0 O) (map elen q).
+Proof. induction q as [|x q IH]; simpl; [reflexivity|]. rewrite <- IH. reflexivity. Qed.
+
+Lemma present_elen q : (forall x, In x q -> edge_of t x <> None) ->
+  present (map (edge_of t) q) = map elen q.
+Proof.
+  induction q as [|x q IH]; intros H; simpl; [reflexivity|].
+  rewrite IH by (intros; apply H; right; auto). unfold elen.
+  destruct (edge_of t x) eqn:E; [reflexivity|]. exfalso. apply (H x); simpl; auto.
+Qed.
+
+Lemma path_len_Dpath qa qb : (forall x, In x (qa ++ qb) -> edge_of t x <> None) ->
+  path_len O (map (edge_of t) (qa ++ qb)) = Some (ladd O (Dpath qa) (Dpath qb)).
+Proof.
+  intros H. rewrite path_len_Some.
+  - rewrite present_elen by auto. rewrite fold_left_right, ladd_0_l, map_app, fold_right_ladd_app.
+    rewrite !Dpath_fold. reflexivity.
+  - intros Hin. apply in_map_iff in Hin as (x & Hx & Hin). apply (H x); auto.
+Qed.
+
+Lemma lrep_add n m : lrep (n + m) = ladd O (lrep n) (lrep m).
+Proof.
+  induction n as [|n IH]; simpl; [symmetry; apply ladd_0_l|].
+  unfold lrep in *. simpl. rewrite IH, ladd_assoc. reflexivity.
+Qed.
+
+(* every pair of distinct leaves: separating node, common ancestor, the two downward paths, the query *)
+Lemma pair_paths a b : In a (rleaves r) -> In b (rleaves r) -> a <> b ->
+  exists s c1 c2 qa qb, In s (subtrees r) /\ (branch s c1 c2 a b \/ branch s c1 c2 b a) /\
+    D s a = Dpath qa /\ D s b = Dpath qb /\ qa <> [] /\ qb <> [] /\
+    (forall x, In x (qa ++ qb) -> In x (ids r) /\ x <> root) /\
+    get_distance O t a b = Ok (path_len O (map (edge_of t) (qa ++ qb)), length qa + length qb) /\
+    get_common_ancestor t a b = Ok (rid s).
+Proof.
+  intros Ha Hb Hne. destruct (branch_exists r a b Ha Hb Hne) as (s & c1 & c2 & Hs & [B|B]).
+  - destruct (branch_paths s c1 c2 a b Hs B) as (qa & qb & H1 & H2 & H3 & H4 & H5 & H6 & H7).
+    exists s, c1, c2, qa, qb. repeat split; auto; apply H5; auto.
+  - destruct (branch_paths s c1 c2 b a Hs B) as (qb & qa & H1 & H2 & H3 & H4 & H5 & H6 & H7).
+    exists s, c1, c2, qa, qb.
+    assert (Hia : In a (ids r)) by (apply rleaves_incl_ids; auto).
+    assert (Hib : In b (ids r)) by (apply rleaves_incl_ids; auto).
+    split; auto. split; auto. split; auto. split; auto. split; auto. split; auto. split.
+    + intros x Hx. apply H5. apply in_app_or in Hx. apply in_or_app. tauto.
+    + split.
+      * rewrite (dist_sym O ladd_assoc ladd_comm ladd_0_l t root r a b HR HN Hia Hib), H6.
+        rewrite !map_app, (path_len_app_comm O ladd_assoc ladd_comm ladd_0_l). f_equal. f_equal. lia.
+      * rewrite (lca_sym t root r a b HR HN Hia Hib). auto.
+Qed.
+
+Section Final.
+Hypothesis Hnamed : forall i, In i (rleaves r) -> lname t i <> None.
+Hypothesis Huniq : NoDup (map (lab t) (rleaves r)).
+
+Lemma rank_name a : In a (rleaves r) ->
+  find_str (lab t a) (map (lab t) (leaf_order t)) = Some (rk t a).
+Proof.
+  intros Ha. apply find_str_nodup.
+  - eapply Permutation_NoDup; [apply Permutation_map, Permutation_sym, leaf_order_perm|exact Huniq].
+  - apply map_nth_error. apply index_of_nth. apply rk_spec; auto.
+Qed.
+
+Lemma lab_inj a b : In a (rleaves r) -> In b (rleaves r) -> lab t a = lab t b -> a = b.
+Proof. intros Ha Hb E. eapply (NoDup_map_inj (lab t)); eauto. Qed.
+
+(* cell lookup, by rank and by name *)
+Lemma dm_lookup m : distance_matrix O t = Ok m ->
+  mtaxa m = stable_sort str_leb (map (lab t) (get_leaves t)) /\
+  msize m = n_leaves t /\ length (mcells m) = n_leaves t * (n_leaves t - 1) / 2 /\
+  forall a b, In a (rleaves r) -> In b (rleaves r) -> a <> b ->
+    exists s, In s (subtrees r) /\ get_common_ancestor t a b = Ok (rid s) /\
+      nth_error (mcells m) (tril_idx (rk t a) (rk t b)) = Some (ladd O (D s a) (D s b)) /\
+      Matrix.dm_get O m (lab t a) (lab t b) = Ok (ladd O (D s a) (D s b)).
+Proof.
+  intros Hm. destruct (dm_result Hnamed) as (m' & Hm' & Htaxa & Hsize & Hlen & Hcells).
+  rewrite Hm in Hm'. injection Hm' as <-. repeat split; auto.
+  intros a b Ha Hb Hne.
+  destruct (pair_paths a b Ha Hb Hne) as (s & c1 & c2 & qa & qb & Hs & HB & _ & _ & _ & _ & _ & _ & Hlca).
+  exists s. split; auto. split; auto.
+  assert (Hcell : nth_error (mcells m) (tril_idx (rk t a) (rk t b)) = Some (ladd O (D s a) (D s b))).
+  { destruct HB as [B|B].
+    - rewrite (Hcells s c1 c2 a b Hs B), ladd_0_l. reflexivity.
+    - rewrite tril_sym, (Hcells s c1 c2 b a Hs B), ladd_0_l, ladd_comm. reflexivity. }
+  split; auto.
+  rewrite (get_spec O m (lab t a) (lab t b) (rk t a) (rk t b)).
+  - rewrite Hcell. reflexivity.
+  - intros E. apply Hne. apply lab_inj; auto.
+  - rewrite Htaxa, <- (taxa_sorted Hnamed). apply rank_name; auto.
+  - rewrite Htaxa, <- (taxa_sorted Hnamed). apply rank_name; auto.
+  - rewrite Hsize. apply rk_spec; auto.
+  - rewrite Hsize. apply rk_spec; auto.
+Qed.
+
+(* item 3: all branch lengths present -> every cell is the path length, as reported by get_distance *)
+Theorem dm_cell m :
+  (forall x, In x (ids r) -> x <> root -> edge_of t x <> None) ->
+  distance_matrix O t = Ok m ->
+  forall a b, In a (rleaves r) -> In b (rleaves r) -> a <> b ->
+  exists s d cnt, In s (subtrees r) /\ get_common_ancestor t a b = Ok (rid s) /\
+    d = ladd O (D s a) (D s b) /\
+    get_distance O t a b = Ok (Some d, cnt) /\
+    nth_error (mcells m) (tril_idx (rk t a) (rk t b)) = Some d /\
+    Matrix.dm_get O m (lab t a) (lab t b) = Ok d.
+Proof.
+  intros Hlens Hm a b Ha Hb Hne.
+  destruct (dm_lookup m Hm) as (_ & _ & _ & Hlk). destruct (Hlk a b Ha Hb Hne) as (s & Hs & Hlca & Hcell & Hget).
+  destruct (pair_paths a b Ha Hb Hne) as (s' & c1 & c2 & qa & qb & Hs' & _ & Da & Db & _ & _ & Hq & Hd & Hlca').
+  rewrite Hlca in Hlca'. injection Hlca' as E. assert (s' = s) by (apply (subtrees_rid_inj r); auto). subst s'.
+  exists s, (ladd O (D s a) (D s b)), (length qa + length qb). repeat split; auto.
+  rewrite Hd, path_len_Dpath, Da, Db; auto. intros x Hx. destruct (Hq x Hx). apply Hlens; auto.
+Qed.
+
+(* item 4: no branch length at all -> every cell is the number of branches of the path (as a sum of 1.0's) *)
+Theorem dm_topo m :
+  (forall x, In x (ids r) -> edge_of t x = None) ->
+  distance_matrix O t = Ok m ->
+  forall a b, In a (rleaves r) -> In b (rleaves r) -> a <> b ->
+  exists s ka kb, In s (subtrees r) /\ get_common_ancestor t a b = Ok (rid s) /\
+    D s a = lrep ka /\ D s b = lrep kb /\
+    get_distance O t a b = Ok (None, ka + kb) /\
+    nth_error (mcells m) (tril_idx (rk t a) (rk t b)) = Some (lrep (ka + kb)) /\
+    Matrix.dm_get O m (lab t a) (lab t b) = Ok (lrep (ka + kb)).
+Proof.
+  intros Hnol Hm a b Ha Hb Hne.
+  destruct (dm_lookup m Hm) as (_ & _ & _ & Hlk). destruct (Hlk a b Ha Hb Hne) as (s & Hs & Hlca & Hcell & Hget).
+  destruct (pair_paths a b Ha Hb Hne) as (s' & c1 & c2 & qa & qb & Hs' & _ & Da & Db & Hqa & _ & Hq & Hd & Hlca').
+  rewrite Hlca in Hlca'. injection Hlca' as E. assert (s' = s) by (apply (subtrees_rid_inj r); auto). subst s'.
+  assert (Ta : Dpath qa = lrep (length qa)).
+  { apply Dpath_topo. intros x Hx. apply Hnol. apply Hq. apply in_or_app; auto. }
+  assert (Tb : Dpath qb = lrep (length qb)).
+  { apply Dpath_topo. intros x Hx. apply Hnol. apply Hq. apply in_or_app; auto. }
+  exists s, (length qa), (length qb). rewrite lrep_add, <- Ta, <- Tb, <- Da, <- Db.
+  repeat split; auto; try congruence.
+  rewrite Hd. f_equal. f_equal. apply path_len_None. destruct qa as [|x qa]; [congruence|].
+  simpl. left. apply Hnol. apply (Hq x). simpl; auto.
+Qed.
+
+End Final.
+End Laws.
+
+(* item 1 *)
+Theorem dm_taxa m : distance_matrix O t = Ok m ->
+  mtaxa m = stable_sort str_leb (map (lab t) (get_leaves t)) /\
+  msize m = n_leaves t /\
+  length (mcells m) = n_leaves t * (n_leaves t - 1) / 2.
+Proof.
+  intros Hm.
+  destruct (existsb (fun i => match lname t i with None => true | Some _ => false end) (rleaves r)) eqn:E.
+  - exfalso. apply existsb_exists in E as (i & Hi & Hn).
+    rewrite dm_unnamed in Hm; [discriminate|]. exists i. split; auto. destruct (lname t i); [discriminate|auto].
+  - assert (Hnamed : forall i, In i (rleaves r) -> lname t i <> None).
+    { intros i Hi Hn. assert (existsb (fun i => match lname t i with None => true | Some _ => false end) (rleaves r) = true); [|congruence].
+      apply existsb_exists. exists i. split; auto. rewrite Hn. auto. }
+    destruct (dm_result Hnamed) as (m' & Hm' & H1 & H2 & H3 & _). rewrite Hm in Hm'. injection Hm' as <-. auto.
+Qed.
+
+(* the cache of a processed node is exactly the key-sorted list of (leaf, distance) *)
+Lemma edge_get_In (es : cache) k v : NoDup (map fst es) -> In (k, v) es -> edge_get es k = Some v.
+Proof.
+  induction es as [|[k0 v0] es IH]; intros Hnd Hin; [destruct Hin|]. simpl in *.
+  apply NoDup_cons_iff in Hnd as [Hk Hnd]. destruct Hin as [[= -> ->]|Hin].
+  - rewrite Nat.eqb_refl. reflexivity.
+  - destruct (Nat.eqb_spec k0 k) as [->|_]; auto. exfalso. apply Hk.
+    change k with (fst (k, v)). apply in_map; auto.
+Qed.
+
+Theorem cache_ok_shape s cc : NoDup (ids s) -> cache_ok s cc ->
+  cc = map (fun k => (k, D s k)) (map fst cc) /\ StronglySorted lt (map fst cc) /\
+  Permutation (map fst cc) (rleaves s).
+Proof.
+  intros Hnd Hok. pose proof Hok as [Hs Hg]. pose proof (ksorted_NoDup cc Hs) as Hk. split; [|split; auto].
+  - rewrite map_map. rewrite <- (map_id cc) at 1. apply map_ext_in. intros [k v] Hin. cbn [fst]. f_equal.
+    pose proof (edge_get_In cc k v Hk Hin) as E.
+    assert (Hkl : In k (rleaves s)).
+    { apply (cache_ok_keys s cc k Hok). change k with (fst (k, v)). apply in_map; auto. }
+    rewrite (cache_ok_get s cc k Hok Hkl) in E. congruence.
+  - apply NoDup_Permutation; auto; [apply rleaves_NoDup; auto|]. intros k. apply cache_ok_keys; auto.
+Qed.
+
+(* ================================================================================================ *)
+(* 4. the recursive variant: one undirected depth-first walk per tip                                 *)
+(* ================================================================================================ *)
+Lemma foldM_map {A B S} (g : S -> B -> outcome S) (h : A -> B) l : forall s,
+  foldM g (map h l) s = foldM (fun s x => g s (h x)) l s.
+Proof. induction l as [|x l IH]; intros s; simpl; [reflexivity|]. destruct (g s (h x)); simpl; auto. Qed.
+
+Lemma bind_ret_r {A} (o : outcome A) : (x <- o ;; Ok x) = o.
+Proof. destruct o; reflexivity. Qed.
+
+(* a fold whose steps either keep an invariant indexed by the processed prefix, or abort with an
+   acceptable error *)
+Lemma foldM_inv_err {A S} (g : S -> A -> outcome S) (I : list A -> S -> Prop) (E : err -> Prop) l :
+  (forall pre x s, (exists post, l = pre ++ x :: post) -> I pre s ->
+     match g s x with Ok s' => I (pre ++ [x]) s' | Err e => E e | _ => False end) ->
+  forall s, I [] s ->
+  match foldM g l s with Ok s' => I l s' | Err e => E e | _ => False end.
+Proof.
+  intros Hstep.
+  assert (G : forall post pre s, l = pre ++ post -> I pre s ->
+    match foldM g post s with Ok s' => I l s' | Err e => E e | _ => False end).
+  { induction post as [|x post IH]; intros pre s El HI; simpl.
+    - rewrite El, app_nil_r. auto.
+    - specialize (Hstep pre x s (ex_intro _ post El) HI). destruct (g s x) as [s'| | |]; simpl; auto.
+      apply (IH (pre ++ [x])); auto. rewrite El, <- app_assoc. reflexivity. }
+  intros s HI. apply (G l [] s); auto.
+Qed.
+
+Definition lsum (cl : L) (q : list nat) : L := fold_left (ladd O) (map elen q) cl.
+
+Lemma lsum_cons cl x q : lsum cl (x :: q) = lsum (ladd O cl (elen x)) q.
+Proof. reflexivity. Qed.
+
+Definition nb_step (f cur : nat) (prev : option nat) (cl : L) (lens : list L) (x : nat * option L)
+  : outcome (list L) :=
+  if onat_eqb (Some (fst x)) prev then Ok lens else
+  match snd x with
+  | Some bl => dmr_impl O f t (fst x) (Some cur) lens (ladd O cl bl)
+  | None => Err MissingBranchLengths
+  end.
+
+Lemma dmr_unfold f cur prev lens cl :
+  dmr_impl O (S f) t cur prev lens cl =
+  (n <- get t cur ;;
+   if (match prev with Some _ => true | None => false end) && is_tip n
+   then Ok (replace_at lens cur cl)
+   else
+     nb <- mapM (fun i => match get t i with Ok c => Ok (i, npedge c) | _ => Panic 17 end) (nchildren n) ;;
+     foldM (nb_step f cur prev cl) (nb ++ match nparent n with Some p => [(p, npedge n)] | None => [] end) lens).
+Proof. reflexivity. Qed.
+
+(* arena facts about a node of the tree and its children *)
+Lemma sub_children s : In s (subtrees r) ->
+  forall c, In c (rch s) -> exists nc, get t (rid c) = Ok nc /\ nparent nc = Some (rid s) /\ npedge nc = edge_of t (rid c).
+Proof.
+  intros Hs c Hc. destruct (sub_rep s Hs) as (p & d & H).
+  destruct (RepLib.Rep_inv _ _ _ _ _ H) as (n & cs & Heq & Hn & Hdel & _ & _ & _ & HF & _).
+  rewrite Heq in Hc. cbn [rch] in Hc. destruct (Forall2_In_r _ _ _ _ HF Hc) as (k & Hk & HRc).
+  pose proof (Rep_rid _ _ _ _ _ HRc) as Ek. subst k.
+  destruct (RepLib.Rep_inv _ _ _ _ _ HRc) as (nc & cs' & _ & Hnc & Hdelc & _ & Hpc & _).
+  exists nc. split; [apply get_Ok; auto|]. split; auto. unfold edge_of. rewrite Hnc. reflexivity.
+Qed.
+
+Lemma nb_children s n : In s (subtrees r) -> get t (rid s) = Ok n ->
+  mapM (fun i => match get t i with Ok c => Ok (i, npedge c) | _ => Panic 17 end) (nchildren n) =
+  Ok (map (fun c => (rid c, edge_of t (rid c))) (rch s)).
+Proof.
+  intros Hs Hg. destruct (sub_node s Hs) as (n' & Hg' & _ & Hcn). rewrite Hg in Hg'. injection Hg' as <-.
+  rewrite Hcn. rewrite <- (map_map rid (fun i => (i, edge_of t i))).
+  apply Stats.mapM_ok. intros i Hi. apply in_map_iff in Hi as (c & <- & Hc).
+  destruct (sub_children s Hs c Hc) as (nc & -> & _ & ->). reflexivity.
+Qed.
+
+Lemma elen_present x e : edge_of t x = Some e -> elen x = e.
+Proof. unfold elen. intros ->. reflexivity. Qed.
+
+Lemma rleaves_RT_cases i cs : cs <> [] -> rleaves (RT i cs) = flat_map rleaves cs.
+Proof. apply rleaves_children. Qed.
+
+(* entering subtree s from its parent pp *)
+Definition down_post (s : rtree) (cl : L) (lens : list L) (out : outcome (list L)) : Prop :=
+  match out with
+  | Ok lens' => length lens' = length lens /\
+      (forall b q, In b (rleaves s) -> rpath b s = Some (rid s :: q) -> nth_error lens' b = Some (lsum cl q)) /\
+      (forall j, ~ In j (rleaves s) -> nth_error lens' j = nth_error lens j)
+  | Err e => e = MissingBranchLengths /\ exists x, In x (ids s) /\ x <> rid s /\ edge_of t x = None
+  | _ => False
+  end.
+
+Lemma ids_lt x : In x (ids r) -> x < length t.
+Proof. intros H. eapply live_lt. eapply Rep_ids_live; eauto. Qed.
+
+Lemma dmr_down : forall s, In s (subtrees r) -> forall pp fuel lens cl,
+  (exists n, get t (rid s) = Ok n /\ nparent n = Some pp) -> ~ In pp (ids s) ->
+  rheight s <= fuel -> length lens = length t ->
+  down_post s cl lens (dmr_impl O fuel t (rid s) (Some pp) lens cl).
+Proof.
+  induction s as [i cs IH] using RepLib.rtree_ind'. intros Hs pp fuel lens cl (n & Hg & Hpar) Hpp Hfuel Hlen.
+  cbn [rid] in *. rewrite Traversals.rheight_RT in Hfuel. destruct fuel as [|f]; [lia|].
+  pose proof (sub_nodup _ Hs) as Hnd. pose proof (NoDup_ids_children _ _ Hnd) as [Hcs Hi].
+  rewrite dmr_unfold, Hg. cbn [bind]. rewrite (sub_tip _ n Hs Hg). cbn [rch andb].
+  destruct cs as [|c0 cs0].
+  - (* a tip: record the accumulated length *)
+    cbn [down_post]. split; [apply replace_at_length|]. split.
+    + intros b q [<-|[]] Hq. rewrite rpath_RT, Nat.eqb_refl in Hq. injection Hq as <-.
+      apply replace_at_same. rewrite Hlen. apply ids_lt. eapply subtrees_ids_incl; eauto. apply (In_rid_ids (RT i [])).
+    + intros j Hj. apply replace_at_other. intros ->. apply Hj. simpl. auto.
+  - remember (c0 :: cs0) as cs eqn:Ecs.
+    assert (Hne : cs <> []) by (subst; discriminate).
+    rewrite (nb_children _ n Hs Hg). cbn [bind rch]. rewrite Hpar, foldM_app, foldM_map.
+    (* the children, left to right *)
+    set (I := fun (done : list rtree) (lens' : list L) =>
+      length lens' = length lens /\
+      (forall c b q, In c done -> In b (rleaves c) -> rpath b c = Some (rid c :: q) ->
+         nth_error lens' b = Some (lsum (ladd O cl (elen (rid c))) q)) /\
+      (forall j, ~ In j (flat_map rleaves done) -> nth_error lens' j = nth_error lens j)).
+    set (E := fun e : err => e = MissingBranchLengths /\ exists x, In x (ids (RT i cs)) /\ x <> i /\ edge_of t x = None).
+    pose proof (foldM_inv_err
+      (fun s x => nb_step f i (Some pp) cl s ((fun c => (rid c, edge_of t (rid c))) x)) I E cs) as HF.
+    lapply HF; [clear HF; intros HF|].
+    + specialize (HF lens). lapply HF; [clear HF; intros HF|].
+      * destruct (foldM _ cs lens) as [lens1| e | |]; cbn [bind]; auto.
+        -- (* then the parent entry, which is where we came from *)
+           cbn [foldM]. unfold nb_step at 1. cbn [fst snd onat_eqb]. rewrite Nat.eqb_refl. cbn [bind].
+           destruct HF as (H1 & H2 & H3). cbn [down_post rid]. split; auto. split.
+           ++ intros b q Hb Hq. rewrite rleaves_RT_cases in Hb by auto.
+              apply in_flat_map in Hb as (c & Hc & Hb).
+              rewrite rpath_RT in Hq. destruct (Nat.eqb_spec i b) as [->|_].
+              { exfalso. apply Hi. apply in_flat_map. exists c. split; auto. apply rleaves_incl_ids; auto. }
+              destruct (rpath_total b c) as [Hex _]. destruct (Hex (rleaves_incl_ids _ _ Hb)) as (qc & Hqc).
+              rewrite (rpath_first_unique b cs c _ Hcs Hc Hqc) in Hq. simpl in Hq. injection Hq as <-.
+              destruct (rpath_head _ _ _ Hqc) as (q' & ->). rewrite lsum_cons. eapply H2; eauto.
+           ++ intros j Hj. apply H3. rewrite rleaves_RT_cases in Hj by auto. exact Hj.
+      * (* initial state *)
+        unfold I. split; auto. split; [intros c b q []|auto].
+    + (* one child *)
+      intros pre c lens' (post & Epre) (H1 & H2 & H3).
+      assert (Hc : In c cs) by (rewrite Epre; apply in_or_app; right; left; auto).
+      assert (Hcr : In c (subtrees r)) by (apply (sub_child (RT i cs) c Hs); auto).
+      destruct (sub_children _ Hs c Hc) as (nc & Hgc & Hparc & Hedge). cbn [rid] in Hparc.
+      unfold nb_step. cbn [fst snd onat_eqb].
+      assert (Hcpp : rid c <> pp).
+      { intros <-. apply Hpp. rewrite ids_RT. right. apply in_flat_map. exists c. split; auto. apply In_rid_ids. }
+      apply Nat.eqb_neq in Hcpp. rewrite Hcpp.
+      destruct (edge_of t (rid c)) as [bl|] eqn:Ebl.
+      * rewrite Forall_forall in IH.
+        assert (Hci : ~ In i (ids c)) by (intros H; apply Hi; apply in_flat_map; eauto).
+        assert (Hhc : rheight c <= f).
+        { pose proof (Traversals.fheight_in c cs Hc). lia. }
+        pose proof (IH c Hc Hcr i f lens' (ladd O cl bl) (ex_intro _ nc (conj Hgc Hparc)) Hci Hhc) as HD.
+        rewrite H1 in HD. specialize (HD Hlen).
+        destruct (dmr_impl O f t (rid c) (Some i) lens' (ladd O cl bl)) as [lens2|e| |]; cbn [down_post] in HD; auto.
+        -- destruct HD as (D1 & D2 & D3). unfold I. split; [congruence|]. split.
+           ++ intros c' b q Hc' Hb Hq. apply in_app_or in Hc' as [Hc'|[<-|[]]].
+              ** rewrite D3; [eapply H2; eauto|]. intros Hbc.
+                 assert (Hc'cs : In c' cs) by (rewrite Epre; apply in_or_app; auto).
+                 assert (c' = c) by (eapply (flat_map_NoDup_inj rleaves cs c' c b); eauto; apply NoDup_forest_leaves; auto).
+                 subst c'. pose proof (NoDup_forest_children _ Hcs) as Hndcs. rewrite Epre in Hndcs.
+                 apply NoDup_app_iff in Hndcs as (_ & _ & Hd). apply (Hd c); simpl; auto.
+              ** rewrite (elen_present _ _ Ebl). eapply D2; eauto.
+           ++ intros j Hj. rewrite flat_map_app, in_app_iff in Hj. cbn [flat_map] in Hj. rewrite app_nil_r in Hj.
+              rewrite D3 by tauto. apply H3. tauto.
+        -- destruct HD as (-> & x & Hx & Hxc & Hnone). unfold E. split; auto. exists x. repeat split; auto.
+           ++ rewrite ids_RT. right. apply in_flat_map. eauto.
+           ++ intros ->. auto.
+      * unfold E. split; auto. exists (rid c). repeat split; auto.
+        -- rewrite ids_RT. right. apply in_flat_map. exists c. split; auto. apply In_rid_ids.
+        -- intros E'. apply Hi. rewrite <- E'. apply in_flat_map. exists c. split; auto. apply In_rid_ids.
+Qed.
+
+(* ---- walking up ---------------------------------------------------------------------------------------------------- *)
+Lemma fsize_in c cs : In c cs -> rsize c <= fsize cs.
+Proof.
+  induction cs as [|x cs IH]; intros H; [destruct H|]. rewrite Traversals.fsize_cons.
+  destruct H as [->|H]; [lia|]. specialize (IH H). lia.
+Qed.
+
+Lemma fsize_in2 c x cs : In c cs -> In x cs -> c <> x -> rsize c + rsize x <= fsize cs.
+Proof.
+  induction cs as [|y cs IH]; intros Hc Hx Hne; [destruct Hc|]. rewrite Traversals.fsize_cons.
+  destruct Hc as [->|Hc], Hx as [->|Hx]; try congruence.
+  - pose proof (fsize_in x cs Hx). lia.
+  - pose proof (fsize_in c cs Hc). lia.
+  - specialize (IH Hc Hx Hne). lia.
+Qed.
+
+Lemma rsize_sub : forall r0 s, In s (subtrees r0) -> rsize s <= rsize r0.
+Proof.
+  induction r0 as [i cs IH] using RepLib.rtree_ind'. intros s Hs. rewrite subtrees_RT in Hs.
+  destruct Hs as [<-|Hs]; [lia|]. apply in_flat_map in Hs as (c & Hc & Hs).
+  rewrite Forall_forall in IH. specialize (IH c Hc s Hs). rewrite Traversals.rsize_RT.
+  pose proof (fsize_in c cs Hc). lia.
+Qed.
+
+Lemma sub_parent_tree : forall r0 s, In s (subtrees r0) ->
+  s = r0 \/ exists sp, In sp (subtrees r0) /\ In s (rch sp).
+Proof.
+  induction r0 as [i cs IH] using RepLib.rtree_ind'. intros s Hs. rewrite subtrees_RT in Hs.
+  destruct Hs as [<-|Hs]; auto. right. apply in_flat_map in Hs as (c & Hc & Hs).
+  rewrite Forall_forall in IH. destruct (IH c Hc s Hs) as [->|(sp & Hsp & Hch)].
+  - exists (RT i cs). split; [apply subtrees_self|auto].
+  - exists sp. split; auto. rewrite subtrees_RT. right. apply in_flat_map. eauto.
+Qed.
+
+Lemma path_through_sub : forall r0 s b Pb, NoDup (ids r0) -> In s (subtrees r0) ->
+  rpath b r0 = Some Pb -> In (rid s) Pb -> In b (ids s).
+Proof.
+  induction r0 as [i cs IH] using RepLib.rtree_ind'. intros s b Pb Hnd Hs Hb Hin.
+  rewrite subtrees_RT in Hs. destruct Hs as [<-|Hs]; [eapply rpath_In; eauto|].
+  apply in_flat_map in Hs as (c & Hc & Hs). pose proof (NoDup_ids_children _ _ Hnd) as [Hcs Hi].
+  assert (Hsc : In (rid s) (ids c)) by (eapply subtrees_ids_incl; eauto; apply In_rid_ids).
+  assert (Hsi : rid s <> i) by (intros E; apply Hi; rewrite <- E; apply in_flat_map; eauto).
+  rewrite rpath_RT in Hb. destruct (Nat.eqb i b).
+  - injection Hb as <-. destruct Hin as [E|[]]. congruence.
+  - destruct (rpath_first b cs) as [qc|] eqn:E; [|discriminate]. simpl in Hb. injection Hb as <-.
+    destruct Hin as [E'|Hin]; [congruence|].
+    apply rpath_first_Some in E as (c' & Hc' & Hqc).
+    assert (c' = c).
+    { apply (flat_map_NoDup_inj ids cs c' c (rid s)); auto. apply (rpath_incl _ _ _ Hqc); auto. }
+    subst c'. rewrite Forall_forall in IH. eapply (IH c Hc); eauto. eapply NoDup_flat_map_in; eauto.
+Qed.
+
+Lemma in_sub_path s b Pb : In s (subtrees r) -> rpath b r = Some Pb -> (In b (ids s) <-> In (rid s) Pb).
+Proof.
+  intros Hs Hb. split; [|eapply path_through_sub; eauto].
+  intros Hin. apply rpath_total in Hin as (q & Hq). destruct (sub_rpath r s HN Hs) as (pc & Hpc).
+  rewrite (Hpc _ _ Hq) in Hb. injection Hb as <-. destruct (rpath_head _ _ _ Hq) as (q' & ->).
+  apply in_or_app. right. left. reflexivity.
+Qed.
+
+Lemma cpl_snoc_notin P p : forall Pb, ~ In p Pb -> cpl (P ++ [p]) Pb = cpl P Pb.
+Proof.
+  induction P as [|x P IH]; intros [|y Pb] H; simpl; auto.
+  - destruct (Nat.eqb_spec p y) as [->|_]; auto. exfalso. apply H. left; auto.
+  - destruct (Nat.eqb x y); auto. f_equal. apply IH. intros Hin. apply H. right; auto.
+Qed.
+
+Lemma cpl_prefix (P V : list nat) : cpl P (P ++ V) = length P.
+Proof.
+  rewrite <- (app_nil_r P) at 1. rewrite cpl_app. destruct V; simpl; lia.
+Qed.
+
+Lemma leaf_in_sub s b : In s (subtrees r) -> In b (rleaves r) -> In b (ids s) -> In b (rleaves s).
+Proof.
+  intros Hs Hb Hin. rewrite (rep_good_rleaves t root r HR) in Hb. apply filter_In in Hb as [_ Hb].
+  destruct (sub_rep s Hs) as (p & d & H).
+  rewrite <- (Traversals.filter_tip_pre t s p d (rid s) H). apply filter_In. split; auto.
+Qed.
+
+Lemma sub_parent sp : In sp (subtrees r) ->
+  (sp = r /\ exists n, get t (rid sp) = Ok n /\ nparent n = None) \/
+  (exists spp n P', In spp (subtrees r) /\ In sp (rch spp) /\ get t (rid sp) = Ok n /\
+     nparent n = Some (rid spp) /\ npedge n = edge_of t (rid sp) /\
+     rpath (rid spp) r = Some P' /\ rpath (rid sp) r = Some (P' ++ [rid sp]) /\ rid sp <> root).
+Proof.
+  intros Hs. destruct (sub_parent_tree r sp Hs) as [->|(spp & Hspp & Hch)].
+  - left. split; auto. destruct (RepLib.Rep_inv _ _ _ _ _ HR) as (n & cs & Heq & Hn & Hdel & _ & Hp & _).
+    exists n. rewrite (Rep_rid _ _ _ _ _ HR). split; auto. apply get_Ok; auto.
+  - right. destruct (sub_children spp Hspp sp Hch) as (n & Hg & Hp & He).
+    destruct (sub_rpath r spp HN Hspp) as (pc & Hpc).
+    pose proof (Hpc _ _ (rpath_root spp)) as H1.
+    assert (H2 : rpath (rid sp) spp = Some [rid spp; rid sp]).
+    { pose proof (sub_nodup spp Hspp) as Hnd. destruct spp as [j cs]. cbn [rch rid] in *.
+      pose proof (NoDup_ids_children _ _ Hnd) as [Hcs Hj]. rewrite rpath_RT.
+      destruct (Nat.eqb_spec j (rid sp)) as [E|_].
+      - exfalso. apply Hj. rewrite E. apply in_flat_map. exists sp. split; auto. apply In_rid_ids.
+      - rewrite (rpath_first_unique (rid sp) cs sp [rid sp] Hcs Hch (rpath_root sp)). reflexivity. }
+    apply Hpc in H2. exists spp, n, (pc ++ [rid spp]). repeat split; auto.
+    + rewrite H2, <- app_assoc. reflexivity.
+    + intros E. pose proof (rpath_NoDup _ _ _ HN H2) as Hnd. destruct (rpath_head _ _ _ H2) as (q' & Eq).
+      rewrite (Rep_rid _ _ _ _ _ HR), E in Eq.
+      change (pc ++ [rid spp; rid sp]) with (pc ++ [rid spp] ++ [rid sp]) in *. rewrite app_assoc in Hnd.
+      apply NoDup_app_iff in Hnd as (_ & _ & Hd). apply (Hd (rid sp)); [|left; auto].
+      rewrite E. destruct pc; simpl in *; injection Eq as -> _; auto.
+Qed.
+
+(* at node p, reached from its child sx: the other children are explored downwards *)
+Lemma up_children p cs sx f cl lens :
+  In (RT p cs) (subtrees r) -> In sx cs ->
+  (forall c, In c cs -> c <> sx -> rheight c <= f) -> length lens = length t ->
+  match foldM (fun s c => nb_step f p (Some (rid sx)) cl s (rid c, edge_of t (rid c))) cs lens with
+  | Ok lens1 => length lens1 = length lens /\
+      (forall c b q, In c cs -> c <> sx -> In b (rleaves c) -> rpath b c = Some (rid c :: q) ->
+         nth_error lens1 b = Some (lsum (ladd O cl (elen (rid c))) q)) /\
+      (forall j, (forall c, In c cs -> c <> sx -> ~ In j (rleaves c)) -> nth_error lens1 j = nth_error lens j)
+  | Err e => e = MissingBranchLengths /\
+      exists x, In x (ids (RT p cs)) /\ x <> p /\ ~ In x (ids sx) /\ edge_of t x = None
+  | _ => False
+  end.
+Proof.
+  intros Hs Hsx Hf Hlen.
+  pose proof (sub_nodup _ Hs) as Hnd. pose proof (NoDup_ids_children _ _ Hnd) as [Hcs Hp].
+  set (I := fun (done : list rtree) (lens' : list L) =>
+    length lens' = length lens /\
+    (forall c b q, In c done -> c <> sx -> In b (rleaves c) -> rpath b c = Some (rid c :: q) ->
+       nth_error lens' b = Some (lsum (ladd O cl (elen (rid c))) q)) /\
+    (forall j, (forall c, In c done -> c <> sx -> ~ In j (rleaves c)) -> nth_error lens' j = nth_error lens j)).
+  set (E := fun e : err => e = MissingBranchLengths /\
+      exists x, In x (ids (RT p cs)) /\ x <> p /\ ~ In x (ids sx) /\ edge_of t x = None).
+  apply (foldM_inv_err _ I E cs).
+  - intros pre c lens' (post & Epre) (H1 & H2 & H3).
+    assert (Hc : In c cs) by (rewrite Epre; apply in_or_app; right; left; auto).
+    assert (Hcr : In c (subtrees r)) by (apply (sub_child (RT p cs) c Hs); auto).
+    destruct (sub_children _ Hs c Hc) as (nc & Hgc & Hparc & Hedge). cbn [rid] in Hparc.
+    unfold nb_step. cbn [fst snd onat_eqb]. destruct (Nat.eqb_spec (rid c) (rid sx)) as [Eq|Hne].
+    + (* the child we came from *)
+      assert (c = sx) by (eapply rid_inj_in; eauto). subst c. unfold I. split; auto. split.
+      * intros c b q Hc' Hcx. apply in_app_or in Hc' as [Hc'|[<-|[]]]; [|congruence]. apply H2; auto.
+      * intros j Hj. apply H3. intros c Hc'. apply Hj. apply in_or_app; auto.
+    + assert (Hcx : c <> sx) by (intros ->; congruence).
+      destruct (edge_of t (rid c)) as [bl|] eqn:Ebl.
+      * assert (Hci : ~ In p (ids c)) by (intros H; apply Hp; apply in_flat_map; eauto).
+        pose proof (dmr_down c Hcr p f lens' (ladd O cl bl) (ex_intro _ nc (conj Hgc Hparc)) Hci (Hf c Hc Hcx)) as HD.
+        rewrite H1 in HD. specialize (HD Hlen).
+        destruct (dmr_impl O f t (rid c) (Some p) lens' (ladd O cl bl)) as [lens2|e| |]; cbn [down_post] in HD; auto.
+        -- destruct HD as (D1 & D2 & D3). unfold I. split; [congruence|]. split.
+           ++ intros c' b q Hc' Hc'x Hb Hq. apply in_app_or in Hc' as [Hc'|[<-|[]]].
+              ** rewrite D3; [eapply H2; eauto|]. intros Hbc.
+                 assert (Hc'cs : In c' cs) by (rewrite Epre; apply in_or_app; auto).
+                 assert (c' = c) by (eapply (flat_map_NoDup_inj rleaves cs c' c b); eauto; apply NoDup_forest_leaves; auto).
+                 subst c'. pose proof (NoDup_forest_children _ Hcs) as Hndcs. rewrite Epre in Hndcs.
+                 apply NoDup_app_iff in Hndcs as (_ & _ & Hd). apply (Hd c); simpl; auto.
+              ** rewrite (elen_present _ _ Ebl). eapply D2; eauto.
+           ++ intros j Hj. rewrite D3.
+              ** apply H3. intros c' Hc'. apply Hj. apply in_or_app; auto.
+              ** apply Hj; auto. apply in_or_app. right. left; auto.
+        -- destruct HD as (-> & x & Hx & Hxc & Hnone). unfold E. split; auto. exists x. repeat split; auto.
+           ++ rewrite ids_RT. right. apply in_flat_map. eauto.
+           ++ intros ->. auto.
+           ++ intros Hxs. apply Hcx. eapply (flat_map_NoDup_inj ids cs c sx x); eauto.
+      * unfold E. split; auto. exists (rid c). repeat split; auto.
+        -- rewrite ids_RT. right. apply in_flat_map. exists c. split; auto. apply In_rid_ids.
+        -- intros E'. apply Hp. rewrite <- E'. apply in_flat_map. exists c. split; auto. apply In_rid_ids.
+        -- intros Hxs. apply Hcx. eapply (flat_map_NoDup_inj ids cs c sx (rid c)); eauto. apply In_rid_ids.
+  - unfold I. split; auto. split; [intros c b q []|auto].
+Qed.
+
+Lemma rpath_root_r : rpath root r = Some [root].
+Proof. pose proof (rpath_root r) as H. rewrite (Rep_rid _ _ _ _ _ HR) in H. exact H. Qed.
+
+(* arriving at the node of subtree sp from its child sx, with root path P *)
+Definition up_post (sx : rtree) (P : list nat) (cl : L) (lens : list L) (out : outcome (list L)) : Prop :=
+  match out with
+  | Ok lens' => length lens' = length lens /\
+      (forall b Pb, In b (rleaves r) -> ~ In b (ids sx) -> rpath b r = Some Pb ->
+         nth_error lens' b = Some (lsum cl (rev (skipn (cpl P Pb) P) ++ skipn (cpl P Pb) Pb))) /\
+      (forall j, ~ (In j (rleaves r) /\ ~ In j (ids sx)) -> nth_error lens' j = nth_error lens j)
+  | Err e => e = MissingBranchLengths /\
+      exists x, In x (ids r) /\ x <> root /\ ~ In x (ids sx) /\ edge_of t x = None
+  | _ => False
+  end.
+
+Lemma dmr_up : forall k P sp sx fuel lens cl, length P <= k ->
+  In sp (subtrees r) -> In sx (rch sp) -> rpath (rid sp) r = Some P ->
+  rsize r - rsize sx <= fuel -> length lens = length t ->
+  up_post sx P cl lens (dmr_impl O fuel t (rid sp) (Some (rid sx)) lens cl).
+Proof.
+  induction k as [|k IH]; intros P sp sx fuel lens cl Hk Hs Hsx HP Hfuel Hlen.
+  { pose proof (rpath_length _ _ _ HP). lia. }
+  pose proof (sub_nodup _ Hs) as Hnd. destruct sp as [p cs]. cbn [rid rch] in *.
+  pose proof (NoDup_ids_children _ _ Hnd) as [Hcs Hp].
+  pose proof (rsize_sub r _ Hs) as Hsz. rewrite Traversals.rsize_RT in Hsz.
+  pose proof (fsize_in sx cs Hsx) as Hszx.
+  destruct fuel as [|f]; [lia|].
+  destruct (sub_node _ Hs) as (n & Hg & _ & Hcn). cbn [rid rch] in *.
+  rewrite dmr_unfold, Hg. cbn [bind]. rewrite (sub_tip _ n Hs Hg). cbn [rch].
+  destruct cs as [|c0 cs0]; [destruct Hsx|]. remember (c0 :: cs0) as cs eqn:Ecs. cbn [andb].
+  rewrite (nb_children _ n Hs Hg). cbn [bind rch]. rewrite foldM_app, foldM_map.
+  assert (Hhf : forall c, In c cs -> c <> sx -> rheight c <= f).
+  { intros c Hc Hne. pose proof (fsize_in2 c sx cs Hc Hsx Hne). pose proof (Traversals.rheight_le_rsize c). lia. }
+  pose proof (up_children p cs sx f cl lens Hs Hsx Hhf Hlen) as HC.
+  destruct (foldM _ cs lens) as [lens1|e| |]; cbn [bind]; auto.
+  2:{ destruct HC as (-> & x & Hx & Hxp & Hxs & Hnone). cbn [up_post]. split; auto. exists x. repeat split; auto.
+      - eapply subtrees_ids_incl; eauto.
+      - intros ->. destruct (proj1 (in_sub_path (RT p cs) root [root] Hs rpath_root_r) Hx) as [E|[]].
+        cbn [rid] in E. congruence. }
+  destruct HC as (C1 & C2 & C3).
+  (* facts shared by both cases *)
+  assert (Hsib : forall b, In b (rleaves r) -> ~ In b (ids sx) -> In b (ids (RT p cs)) ->
+            exists c q, In c cs /\ c <> sx /\ In b (rleaves c) /\ rpath b c = Some (rid c :: q) /\
+                        rpath b r = Some (P ++ rid c :: q)).
+  { intros b Hb Hbx Hbs. pose proof (leaf_in_sub _ b Hs Hb Hbs) as Hbl.
+    rewrite rleaves_RT_cases in Hbl by (subst; discriminate).
+    apply in_flat_map in Hbl as (c & Hc & Hbc).
+    assert (Hcx : c <> sx) by (intros ->; apply Hbx; apply rleaves_incl_ids; auto).
+    destruct (rpath_total b c) as [Hex _]. destruct (Hex (rleaves_incl_ids _ _ Hbc)) as (qc & Hqc).
+    destruct (rpath_head _ _ _ Hqc) as (q & ->). exists c, q. repeat split; auto.
+    destruct (sub_rpath r _ HN Hs) as (pc & Hpc).
+    pose proof (Hpc p [p] (rpath_root (RT p cs))) as HP'. rewrite HP in HP'. injection HP' as ->.
+    assert (Hbp : rpath b (RT p cs) = Some (p :: rid c :: q)).
+    { rewrite rpath_RT. destruct (Nat.eqb_spec p b) as [->|_].
+      - exfalso. apply Hp. apply in_flat_map. exists c. split; auto. apply rleaves_incl_ids; auto.
+      - rewrite (rpath_first_unique b cs c _ Hcs Hc Hqc). reflexivity. }
+    rewrite (Hpc _ _ Hbp), <- app_assoc. reflexivity. }
+  assert (Hval : forall b c q, In c cs -> c <> sx -> In b (rleaves c) -> rpath b c = Some (rid c :: q) ->
+            rpath b r = Some (P ++ rid c :: q) ->
+            lsum (ladd O cl (elen (rid c))) q =
+            lsum cl (rev (skipn (cpl P (P ++ rid c :: q)) P) ++ skipn (cpl P (P ++ rid c :: q)) (P ++ rid c :: q))).
+  { intros b c q _ _ _ _ _. rewrite cpl_prefix, skipn_all, skipn_app_exact. reflexivity. }
+  destruct (sub_parent _ Hs) as [(Er & n' & Hg' & Hpar)|(spp & n' & P' & Hspp & Hch & Hg' & Hpar & Hedge & HP' & HPp & Hroot)];
+    cbn [rid] in *; rewrite Hg in Hg'; injection Hg' as <-; rewrite Hpar.
+  - (* p is the root: nothing above *)
+    cbn [foldM]. cbn [up_post]. split; auto. split.
+    + intros b Pb Hb Hbx HPb. assert (Hbs : In b (ids (RT p cs))) by (rewrite Er; apply rleaves_incl_ids; auto).
+      destruct (Hsib b Hb Hbx Hbs) as (c & q & Hc & Hcx & Hbc & Hqc & Hbr).
+      rewrite HPb in Hbr. injection Hbr as ->. rewrite (C2 c b q Hc Hcx Hbc Hqc). f_equal. eapply Hval; eauto.
+    + intros j Hj. apply C3. intros c Hc Hcx Hjc. apply Hj. split.
+      * eapply subtrees_leaves_incl; [|exact Hjc]. apply (sub_child (RT p cs) c Hs); auto.
+      * intros Hjx. apply Hcx. apply (flat_map_NoDup_inj ids cs c sx j); auto. apply rleaves_incl_ids; auto.
+  - (* continue to the parent of p *)
+    cbn [foldM]. unfold nb_step at 1. cbn [fst snd onat_eqb].
+    assert (Hppx : rid spp <> rid sx).
+    { intros E. pose proof (sub_nodup _ Hspp) as Hn'. destruct spp as [pp cs']. cbn [rid rch] in *.
+      apply NoDup_ids_children in Hn' as [_ Hn']. apply Hn'. apply in_flat_map. exists (RT p cs). split; auto.
+      rewrite E, ids_RT. right. apply in_flat_map. exists sx. split; auto. apply In_rid_ids. }
+    apply Nat.eqb_neq in Hppx. rewrite Hppx, Hedge.
+    rewrite HP in HPp. injection HPp as ->.
+    destruct (edge_of t p) as [bl|] eqn:Ebl.
+    + assert (Hk' : length P' <= k) by (rewrite app_length in Hk; simpl in Hk; lia).
+      assert (Hf' : rsize r - rsize (RT p cs) <= f) by (rewrite Traversals.rsize_RT; lia).
+      pose proof (IH P' spp (RT p cs) f lens1 (ladd O cl bl) Hk' Hspp Hch HP' Hf') as HU.
+      rewrite C1 in HU. specialize (HU Hlen). cbn [rid] in HU. rewrite bind_ret_r.
+      destruct (dmr_impl O f t (rid spp) (Some p) lens1 (ladd O cl bl)) as [lens2|e| |]; cbn [up_post] in *; auto.
+      * destruct HU as (U1 & U2 & U3). split; [congruence|]. split.
+        -- intros b Pb Hb Hbx HPb. destruct (in_dec Nat.eq_dec b (ids (RT p cs))) as [Hbs|Hbs].
+           ++ destruct (Hsib b Hb Hbx Hbs) as (c & q & Hc & Hcx & Hbc & Hqc & Hbr).
+              rewrite HPb in Hbr. injection Hbr as ->. rewrite U3 by tauto.
+              rewrite (C2 c b q Hc Hcx Hbc Hqc). f_equal. eapply Hval; eauto.
+           ++ rewrite (U2 b Pb Hb Hbs HPb).
+              assert (Hnp : ~ In p Pb).
+              { intros Hin. apply Hbs. apply (proj2 (in_sub_path (RT p cs) b Pb Hs HPb)). exact Hin. }
+              rewrite (cpl_snoc_notin P' p Pb Hnp).
+              pose proof (cpl_le_l P' Pb) as Hle. rewrite skipn_app.
+              replace (cpl P' Pb - length P') with 0 by lia. cbn [skipn].
+              rewrite rev_app_distr. cbn [rev app]. rewrite lsum_cons, (elen_present _ _ Ebl). reflexivity.
+        -- intros j Hj. rewrite U3.
+           ++ apply C3. intros c Hc Hcx Hjc. apply Hj. split.
+              ** eapply subtrees_leaves_incl; [|exact Hjc]. apply (sub_child (RT p cs) c Hs); auto.
+              ** intros Hjx. apply Hcx. apply (flat_map_NoDup_inj ids cs c sx j); auto. apply rleaves_incl_ids; auto.
+           ++ intros [Hjl Hjs]. apply Hj. split; auto. intros Hjx. apply Hjs. rewrite ids_RT. right.
+              apply in_flat_map. eauto.
+      * destruct HU as (-> & x & Hx & Hxr & Hxs & Hnone). split; auto. exists x. repeat split; auto.
+        intros Hxx. apply Hxs. rewrite ids_RT. right. apply in_flat_map. eauto.
+    + cbn [up_post]. split; auto. exists p. repeat split; auto.
+      * apply (subtrees_ids_incl r (RT p cs) Hs). apply (In_rid_ids (RT p cs)).
+      * intros Hpx. apply Hp. apply in_flat_map. eauto.
+Qed.
+
+(* ---- the row of a tip ------------------------------------------------------------------------------------------------- *)
+Lemma leaf_subtree : forall r0 a, In a (rleaves r0) -> In (RT a []) (subtrees r0).
+Proof.
+  induction r0 as [i cs IH] using RepLib.rtree_ind'. intros a Ha. destruct cs as [|c0 cs0].
+  - simpl in Ha. destruct Ha as [<-|[]]. apply subtrees_self.
+  - rewrite rleaves_cons in Ha. apply in_flat_map in Ha as (c & Hc & Ha). rewrite Forall_forall in IH.
+    rewrite subtrees_RT. right. apply in_flat_map. exists c. split; auto.
+Qed.
+
+(* lower endpoints of the branches of the tree path from a to b, in walking order *)
+Definition walk (Pa Pb : list nat) : list nat :=
+  rev (skipn (cpl Pa Pb) Pa) ++ skipn (cpl Pa Pb) Pb.
+
+Definition row_post (a : nat) (out : outcome (list L)) : Prop :=
+  match out with
+  | Ok row => length row = length t /\
+      (forall b Pa Pb, In b (rleaves r) -> b <> a -> rpath a r = Some Pa -> rpath b r = Some Pb ->
+         nth_error row b = Some (lsum (l0 O) (walk Pa Pb)))
+  | Err e => e = MissingBranchLengths /\ exists x, In x (ids r) /\ x <> root /\ edge_of t x = None
+  | _ => False
+  end.
+
+Lemma dmr_row a : In a (rleaves r) ->
+  row_post a (dmr_impl O (S (S (length t))) t a None (repeat (linf O) (length t)) (l0 O)).
+Proof.
+  intros Ha. pose proof (leaf_subtree r a Ha) as Hs.
+  rewrite dmr_unfold.
+  destruct (sub_parent _ Hs) as [(Er & n & Hg & Hpar)|(spp & n & P' & Hspp & Hch & Hg & Hpar & Hedge & HP' & HPa & Hroot)];
+    cbn [rid] in *; rewrite Hg; cbn [bind andb]; rewrite (nb_children _ n Hs Hg); cbn [bind rch map app]; rewrite Hpar.
+  - cbn [foldM row_post]. split; [apply repeat_length|].
+    intros b Pa Pb Hb Hne. rewrite <- Er in Hb. simpl in Hb. destruct Hb as [<-|[]]. congruence.
+  - cbn [foldM]. unfold nb_step at 1. cbn [fst snd onat_eqb]. rewrite Hedge, bind_ret_r.
+    destruct (edge_of t a) as [bl|] eqn:Ebl.
+    + assert (Hfuel : rsize r - rsize (RT a []) <= S (length t)).
+      { pose proof (Traversals.rsize_le_length t None 0 root r HR HN). lia. }
+      pose proof (dmr_up (length P') P' spp (RT a []) (S (length t)) (repeat (linf O) (length t)) (ladd O (l0 O) bl)
+                    (le_n _) Hspp Hch HP' Hfuel (repeat_length _ _)) as HU.
+      cbn [rid] in HU.
+      destruct (dmr_impl O (S (length t)) t (rid spp) (Some a) (repeat (linf O) (length t)) (ladd O (l0 O) bl))
+        as [row|e| |]; cbn [up_post row_post] in *; auto.
+      * destruct HU as (U1 & U2 & _). split; [rewrite U1; apply repeat_length|].
+        intros b Pa Pb Hb Hne HPa' HPb. rewrite HPa in HPa'. injection HPa' as <-.
+        assert (Hbx : ~ In b (ids (RT a []))) by (simpl; intuition).
+        rewrite (U2 b Pb Hb Hbx HPb). f_equal. unfold walk.
+        assert (Hna : ~ In a Pb).
+        { intros Hin. apply Hbx. apply (proj2 (in_sub_path (RT a []) b Pb Hs HPb)). exact Hin. }
+        rewrite (cpl_snoc_notin P' a Pb Hna). pose proof (cpl_le_l P' Pb) as Hle. rewrite skipn_app.
+        replace (cpl P' Pb - length P') with 0 by lia. cbn [skipn].
+        rewrite rev_app_distr. cbn [rev app]. rewrite lsum_cons, (elen_present _ _ Ebl). reflexivity.
+      * destruct HU as (-> & x & Hx & Hxr & _ & Hnone). split; auto. eauto.
+    + cbn [row_post]. split; auto. exists a. repeat split; auto. apply rleaves_incl_ids; auto.
+Qed.
+
+(* ---- overwriting cells ------------------------------------------------------------------------------------------------ *)
+Definition set_ups (ups : list (nat * L)) (vec : list L) : list L :=
+  fold_left (fun vec u => replace_at vec (fst u) (snd u)) ups vec.
+
+Lemma set_ups_length ups : forall vec, length (set_ups ups vec) = length vec.
+Proof.
+  induction ups as [|u ups IH]; intros vec; simpl; auto. unfold set_ups in *. simpl.
+  rewrite IH. apply replace_at_length.
+Qed.
+
+Lemma set_ups_other ups k : forall vec, ~ In k (map fst ups) -> nth_error (set_ups ups vec) k = nth_error vec k.
+Proof.
+  induction ups as [|u ups IH]; intros vec Hk; simpl in *; auto. unfold set_ups in *. simpl.
+  rewrite IH by tauto. apply replace_at_other. tauto.
+Qed.
+
+Lemma set_ups_hit ups k v : forall vec, NoDup (map fst ups) -> In (k, v) ups -> k < length vec ->
+  nth_error (set_ups ups vec) k = Some v.
+Proof.
+  induction ups as [|u ups IH]; intros vec Hnd Hin Hk; simpl in *; [tauto|].
+  apply NoDup_cons_iff in Hnd as [Hu Hnd]. unfold set_ups in *. simpl. destruct Hin as [->|Hin].
+  - simpl in *. fold (set_ups ups (replace_at vec k v)). rewrite set_ups_other by auto.
+    apply replace_at_same; auto.
+  - apply IH; auto. rewrite replace_at_length. auto.
+Qed.
+
+Lemma rows_get_map (f : nat -> list L) l x : In x l -> rows_get (map (fun tip => (tip, f tip)) l) x = Some (f x).
+Proof.
+  induction l as [|y l IH]; intros H; [destruct H|]. simpl. destruct (Nat.eqb_spec y x) as [->|Hne]; auto.
+  destruct H as [->|H]; [congruence|auto].
+Qed.
+
+(* ---- distance_matrix_recursive ----------------------------------------------------------------------------------------- *)
+Lemma mapM_cases {A B} (g : A -> outcome B) (f : A -> B) e (Q : Prop) l :
+  (forall x, In x l -> g x = Ok (f x) \/ (g x = Err e /\ Q)) ->
+  mapM g l = Ok (map f l) \/ (mapM g l = Err e /\ Q).
+Proof.
+  induction l as [|x l IH]; intros H; simpl; [left; eauto|].
+  destruct (H x (or_introl eq_refl)) as [->|[-> HQ]]; cbn [bind]; auto.
+  destruct IH as [->|[-> HQ]]; cbn [bind]; auto. intros z Hz. apply H. right; auto.
+Qed.
+
+Lemma set_ups_map {A} (F : A -> nat * L) l : forall vec,
+  fold_left (fun vec x => replace_at vec (fst (F x)) (snd (F x))) l vec = set_ups (map F l) vec.
+Proof. induction l as [|x l IH]; intros vec; simpl; auto. Qed.
+
+Section Recursive.
+Hypothesis Hnamed : forall i, In i (rleaves r) -> lname t i <> None.
+Hypothesis Huniq : NoDup (map (lab t) (rleaves r)).
+
+Lemma good : Good t root r.
+Proof. constructor; auto. Qed.
+
+Lemma leaf_idx_order : leaf_idx t = map (lab t) (leaf_order t).
+Proof. unfold leaf_idx. symmetry. apply taxa_sorted; auto. Qed.
+
+Definition tip_row (tip : nat) : outcome (nat * list L) :=
+  r <- dmr_impl O (S (S (length t))) t tip None (repeat (linf O) (length t)) (l0 O) ;; Ok (tip, r).
+
+Definition cell_step (taxa : list str) (rows : list (nat * list L)) (cells : list L) (pr : nat * nat)
+  : outcome (list L) :=
+  let d := match rows_get rows (fst pr) with
+           | Some row => nth (snd pr) row (linf O)
+           | None => linf O end in
+  n1 <- get t (fst pr) ;; n2 <- get t (snd pr) ;;
+  match nname n1, nname n2 with
+  | Some a1, Some a2 =>
+      if str_eqb a1 a2 then Panic 19 else
+      match find_str a1 taxa, find_str a2 taxa with
+      | Some i, Some j => Ok (replace_at cells (tril_idx i j) d)
+      | _, _ => Err TMatrixError
+      end
+  | _, _ => Panic 20
+  end.
+
+Lemma dmr_top :
+  distance_matrix_recursive O (tree_of t) =
+  (rows <- mapM tip_row (get_leaves t) ;;
+   cells <- foldM (cell_step (leaf_idx t) rows) (pairs (get_leaves t)) (repeat (l0 O) (ncells t)) ;;
+   Ok (mkDmat (n_leaves t) (leaf_idx t) cells, mkTree t (Some (leaf_idx t)) None)).
+Proof.
+  unfold distance_matrix_recursive. cbn [nodes tree_of].
+  change (mkTree t None None) with (tree_of t). unfold tree_of.
+  rewrite (init_leaf_index_fresh t root r good None). cbn [bind leaf_index].
+  rewrite (leaf_idx_length t root r good), Nat.eqb_refl. cbn [negb]. reflexivity.
+Qed.
+
+Definition dval (rows : list (nat * list L)) (pr : nat * nat) : L :=
+  match rows_get rows (fst pr) with
+  | Some row => nth (snd pr) row (linf O)
+  | None => linf O
+  end.
+
+Lemma gl_NoDup : NoDup (get_leaves t).
+Proof. eapply rep_get_leaves_NoDup; eauto. Qed.
+
+Lemma gl_in x : In x (get_leaves t) <-> In x (rleaves r).
+Proof. eapply rep_in_get_leaves; eauto. Qed.
+
+Lemma find_rank x : In x (rleaves r) -> find_str (lab t x) (leaf_idx t) = Some (rk t x).
+Proof. intros Hx. rewrite leaf_idx_order. apply rank_name; auto. Qed.
+
+(* the second loop never fails, whatever the rows *)
+Lemma cells_fold rows :
+  foldM (cell_step (leaf_idx t) rows) (pairs (get_leaves t)) (repeat (l0 O) (ncells t)) =
+  Ok (set_ups (map (fun pr => (cell t (fst pr) (snd pr), dval rows pr)) (pairs (get_leaves t)))
+              (repeat (l0 O) (ncells t))).
+Proof.
+  rewrite <- set_ups_map. apply foldM_ok_fold. intros cells [x y] Hpr.
+  pose proof (pairs_neq _ _ _ gl_NoDup Hpr) as Hne. apply in_pairs in Hpr as [Hx Hy].
+  apply gl_in in Hx, Hy.
+  destruct (leaf_named Hnamed x Hx) as (n1 & Hg1 & Hn1). destruct (leaf_named Hnamed y Hy) as (n2 & Hg2 & Hn2).
+  unfold cell_step. cbn [fst snd]. rewrite Hg1, Hg2. cbn [bind]. rewrite Hn1, Hn2.
+  assert (Hs : str_eqb (lab t x) (lab t y) = false).
+  { apply str_eqb_neq. intros E. apply Hne. apply lab_inj; auto. }
+  rewrite Hs, (find_rank x Hx), (find_rank y Hy). reflexivity.
+Qed.
+
+Lemma pair_cells_NoDup rows :
+  NoDup (map fst (map (fun pr => (cell t (fst pr) (snd pr), dval rows pr)) (pairs (get_leaves t)))).
+Proof.
+  rewrite map_map. cbn [fst]. apply NoDup_map_inj_in; [apply pairs_NoDup, gl_NoDup|].
+  intros [x y] [x' y'] H H' E. cbn [fst snd] in E.
+  pose proof (pairs_neq _ _ _ gl_NoDup H) as Hne. pose proof (pairs_neq _ _ _ gl_NoDup H') as Hne'.
+  pose proof (in_pairs _ _ _ H) as [Hx Hy]. pose proof (in_pairs _ _ _ H') as [Hx' Hy'].
+  apply gl_in in Hx, Hy, Hx', Hy'.
+  destruct (cell_inj x y x' y' Hx Hy Hx' Hy' Hne Hne' E) as [[-> ->]|[-> ->]]; auto.
+  exfalso. revert H'. apply pairs_asym; auto. apply gl_NoDup.
+Qed.
+
+
+Definition rowf (a : nat) : list L :=
+  match dmr_impl O (S (S (length t))) t a None (repeat (linf O) (length t)) (l0 O) with
+  | Ok row => row
+  | _ => []
+  end.
+
+Definition missing : Prop := exists x, In x (ids r) /\ x <> root /\ edge_of t x = None.
+
+Lemma tip_row_cases a : In a (rleaves r) ->
+  (tip_row a = Ok (a, rowf a) /\ length (rowf a) = length t /\
+     forall b Pa Pb, In b (rleaves r) -> b <> a -> rpath a r = Some Pa -> rpath b r = Some Pb ->
+       nth_error (rowf a) b = Some (lsum (l0 O) (walk Pa Pb))) \/
+  (tip_row a = Err MissingBranchLengths /\ missing).
+Proof.
+  intros Ha. pose proof (dmr_row a Ha) as HR'. unfold tip_row, rowf.
+  destruct (dmr_impl _ _ _ _ _ _ _) as [row|e| |]; cbn [row_post bind] in *; try tauto.
+  destruct HR' as [-> Hm]. right. split; auto.
+Qed.
+
+(* items 5/6 for the recursive variant: taxa, sizes, no panic *)
+Theorem dmr_outcome :
+  (exists cells, distance_matrix_recursive O (tree_of t) =
+       Ok (mkDmat (n_leaves t) (leaf_idx t) cells, mkTree t (Some (leaf_idx t)) None) /\
+     length cells = ncells t /\
+     forall x y, In (x, y) (pairs (get_leaves t)) ->
+       nth_error cells (cell t x y) = Some (nth y (rowf x) (linf O))) \/
+  (distance_matrix_recursive O (tree_of t) = Err MissingBranchLengths /\ missing).
+Proof.
+  rewrite dmr_top.
+  destruct (mapM_cases tip_row (fun a => (a, rowf a)) MissingBranchLengths missing (get_leaves t)) as [Hrows|[Hrows Hm]].
+  - intros x Hx. apply gl_in in Hx. destruct (tip_row_cases x Hx) as [(H & _)|H]; auto.
+  - left. rewrite Hrows. cbn [bind]. rewrite cells_fold. cbn [bind]. eexists. split; [reflexivity|].
+    split; [rewrite set_ups_length; apply repeat_length|].
+    intros x y Hxy.
+    replace (nth y (rowf x) (linf O)) with (dval (map (fun a => (a, rowf a)) (get_leaves t)) (x, y)).
+    + apply set_ups_hit.
+      * apply pair_cells_NoDup.
+      * apply (in_map (fun pr => (cell t (fst pr) (snd pr), dval _ pr)) _ (x, y)). auto.
+      * rewrite repeat_length. pose proof (pairs_neq _ _ _ gl_NoDup Hxy). apply in_pairs in Hxy as [Hx Hy].
+        apply gl_in in Hx, Hy. apply cell_lt; auto.
+    + unfold dval. cbn [fst snd]. apply in_pairs in Hxy as [Hx _]. rewrite rows_get_map; auto.
+  - right. rewrite Hrows. auto.
+Qed.
+
+Theorem dmr_no_panic :
+  (exists m tc, distance_matrix_recursive O (tree_of t) = Ok (m, tc)) \/
+  distance_matrix_recursive O (tree_of t) = Err MissingBranchLengths.
+Proof. destruct dmr_outcome as [(cells & H & _)|[H _]]; eauto. Qed.
+
+Theorem dmr_taxa m tc : distance_matrix_recursive O (tree_of t) = Ok (m, tc) ->
+  mtaxa m = stable_sort str_leb (map (lab t) (get_leaves t)) /\ msize m = n_leaves t /\
+  length (mcells m) = n_leaves t * (n_leaves t - 1) / 2 /\
+  nodes tc = t /\ leaf_index tc = Some (mtaxa m).
+Proof.
+  destruct dmr_outcome as [(cells & H & Hl & _)|[H _]]; rewrite H; [|discriminate].
+  intros [= <- <-]. cbn [mtaxa msize mcells nodes leaf_index]. auto.
+Qed.
+
+End Recursive.
+
+(* ---- the recursive variant returns the same path lengths ------------------------------------------------------------------ *)
+Lemma index_of_nth_NoDup l : NoDup l -> forall i a, nth_error l i = Some a -> index_of a l = Some i.
+Proof.
+  induction l as [|x l IH]; intros Hnd [|i] a H; simpl in *; try discriminate.
+  - injection H as ->. rewrite Nat.eqb_refl. reflexivity.
+  - apply NoDup_cons_iff in Hnd as [Hx Hnd]. destruct (Nat.eqb_spec a x) as [->|_].
+    + exfalso. apply Hx. eapply nth_error_In; eauto.
+    + rewrite (IH Hnd i a H). reflexivity.
+Qed.
+
+Section RecLaws.
+Hypothesis Hnamed : forall i, In i (rleaves r) -> lname t i <> None.
+Hypothesis Huniq : NoDup (map (lab t) (rleaves r)).
+Hypothesis ladd_assoc : forall x y z, ladd O x (ladd O y z) = ladd O (ladd O x y) z.
+Hypothesis ladd_comm : forall x y, ladd O x y = ladd O y x.
+Hypothesis ladd_0_l : forall x, ladd O (l0 O) x = x.
+Hypothesis Hlens : forall x, In x (ids r) -> x <> root -> edge_of t x <> None.
+
+Lemma not_missing : ~ missing.
+Proof. intros (x & Hx & Hr & Hn). apply (Hlens x); auto. Qed.
+
+Lemma walk_dist a b Pa Pb : In a (ids r) -> In b (ids r) -> rpath a r = Some Pa -> rpath b r = Some Pb ->
+  get_distance O t a b = Ok (Some (lsum (l0 O) (walk Pa Pb)), length (walk Pa Pb)) /\
+  lsum (l0 O) (walk Pb Pa) = lsum (l0 O) (walk Pa Pb).
+Proof.
+  intros Ha Hb HPa HPb.
+  destruct (dist_refines O t root r a b HR HN Ha Hb) as (pa & pb & Hpa & Hpb & Hd).
+  rewrite HPa in Hpa. rewrite HPb in Hpb. injection Hpa as <-. injection Hpb as <-. cbv zeta in Hd.
+  destruct (lca_spec r a b Pa Pb HN HPa HPb) as (pc & c & _ & _ & Hsa & Hsb & Hk & _).
+  set (ta := skipn (cpl Pa Pb) Pa) in *. set (tb := skipn (cpl Pa Pb) Pb) in *.
+  assert (Hedges : forall x, In x (ta ++ tb) -> edge_of t x <> None).
+  { assert (Hone : forall x P tl, rpath x r = Some P -> P = pc ++ c :: tl -> forall y, In y tl -> edge_of t y <> None).
+    { intros x P tl HP E y Hy. apply Hlens.
+      - apply (rpath_incl _ _ _ HP). rewrite E. apply in_or_app. right. right. auto.
+      - pose proof (rpath_NoDup _ _ _ HN HP) as Hnd. destruct (rpath_head _ _ _ HP) as (q' & Eq).
+        rewrite (Rep_rid _ _ _ _ _ HR) in Eq. intros ->. rewrite E in Hnd, Eq.
+        change (pc ++ c :: tl) with (pc ++ [c] ++ tl) in *. rewrite app_assoc in Hnd.
+        apply NoDup_app_iff in Hnd as (_ & _ & Hdis). apply (Hdis root); auto.
+        destruct pc; simpl in *; injection Eq as -> _; auto. }
+    intros x Hx. apply in_app_or in Hx as [Hx|Hx]; [eapply (Hone a Pa ta)|eapply (Hone b Pb tb)]; eauto. }
+  assert (Hsum : forall l, Permutation l (ta ++ tb) -> lsum (l0 O) l = fold_left (ladd O) (map elen (ta ++ tb)) (l0 O)).
+  { intros l Hp. unfold lsum. apply (Stats.fold_ladd_perm O ladd_assoc ladd_comm). apply Permutation_map; auto. }
+  split.
+  - rewrite Hd. f_equal. f_equal.
+    + rewrite path_len_Some.
+      * rewrite present_elen by auto. f_equal. symmetry. apply Hsum. unfold walk. fold ta tb.
+        apply Permutation_app_tail. apply Permutation_sym, Permutation_rev.
+      * intros Hin. apply in_map_iff in Hin as (x & Hx & Hin). apply (Hedges x); auto.
+    + unfold walk. fold ta tb. rewrite !app_length, rev_length. reflexivity.
+  - rewrite (Hsum (walk Pa Pb)).
+    + apply Hsum. unfold walk. rewrite (cpl_sym Pb Pa). fold ta tb.
+      eapply Permutation_trans; [apply Permutation_app_comm|]. apply Permutation_app_head.
+      apply Permutation_sym, Permutation_rev.
+    + unfold walk. fold ta tb. apply Permutation_app_tail. apply Permutation_sym, Permutation_rev.
+Qed.
+
+(* item 5 *)
+Theorem dmr_cell :
+  exists m tc, distance_matrix_recursive O (tree_of t) = Ok (m, tc) /\
+    mtaxa m = stable_sort str_leb (map (lab t) (get_leaves t)) /\ msize m = n_leaves t /\
+    length (mcells m) = n_leaves t * (n_leaves t - 1) / 2 /\
+    forall a b, In a (rleaves r) -> In b (rleaves r) -> a <> b ->
+      exists d cnt, get_distance O t a b = Ok (Some d, cnt) /\
+        nth_error (mcells m) (tril_idx (rk t a) (rk t b)) = Some d /\
+        Matrix.dm_get O m (lab t a) (lab t b) = Ok d.
+Proof.
+  destruct (dmr_outcome Hnamed Huniq) as [(cells & H & Hl & Hcells)|[_ Hm]]; [|destruct (not_missing Hm)].
+  do 2 eexists. split; [exact H|]. cbn [mtaxa msize mcells]. split; [reflexivity|]. split; [reflexivity|].
+  split; [exact Hl|]. intros a b Ha Hb Hne.
+  assert (Hia : In a (ids r)) by (apply rleaves_incl_ids; auto).
+  assert (Hib : In b (ids r)) by (apply rleaves_incl_ids; auto).
+  destruct (proj1 (rpath_total a r) Hia) as (Pa & HPa). destruct (proj1 (rpath_total b r) Hib) as (Pb & HPb).
+  destruct (walk_dist a b Pa Pb Hia Hib HPa HPb) as [Hd Hsym].
+  exists (lsum (l0 O) (walk Pa Pb)), (length (walk Pa Pb)). split; auto.
+  assert (Hcell : nth_error cells (tril_idx (rk t a) (rk t b)) = Some (lsum (l0 O) (walk Pa Pb))).
+  { assert (Hrow : forall x y Px Py, In x (rleaves r) -> In y (rleaves r) -> y <> x ->
+              rpath x r = Some Px -> rpath y r = Some Py -> nth y (rowf x) (linf O) = lsum (l0 O) (walk Px Py)).
+    { intros x y Px Py Hx Hy Hyx HPx HPy. destruct (tip_row_cases x Hx) as [(_ & _ & Hv)|[_ Hm]]; [|destruct (not_missing Hm)].
+      apply nth_error_nth. eapply Hv; eauto. }
+    destruct (pairs_total (get_leaves t) a b) as [Hp|Hp]; try (apply (gl_in); auto); auto.
+    - change (tril_idx (rk t a) (rk t b)) with (cell t a b). rewrite (Hcells a b Hp). f_equal.
+      eapply Hrow; eauto.
+    - rewrite tril_sym. change (tril_idx (rk t b) (rk t a)) with (cell t b a). rewrite (Hcells b a Hp). f_equal.
+      rewrite <- Hsym. eapply Hrow; eauto. }
+  split; auto.
+  rewrite (get_spec O _ (lab t a) (lab t b) (rk t a) (rk t b)); cbn [mtaxa msize mcells].
+  - rewrite Hcell. reflexivity.
+  - intros E. apply Hne. apply (lab_inj Huniq); auto.
+  - apply find_rank; auto.
+  - apply find_rank; auto.
+  - apply rk_spec; auto.
+  - apply rk_spec; auto.
+Qed.
+
+(* the two computations return the same matrix *)
+Theorem dm_agree m m' tc :
+  distance_matrix O t = Ok m -> distance_matrix_recursive O (tree_of t) = Ok (m', tc) -> m' = m.
+Proof.
+  intros Hm Hm'.
+  destruct (dm_lookup ladd_assoc ladd_comm ladd_0_l Hnamed Huniq m Hm) as (Htaxa & Hsize & Hlen & _).
+  destruct dmr_cell as (m2 & tc2 & H2 & Htaxa' & Hsize' & Hlen' & Hc').
+  rewrite Hm' in H2. injection H2 as <- <-.
+  assert (Hcells : mcells m' = mcells m).
+  { apply nth_error_ext_eq. intros k. destruct (Nat.lt_ge_cases k (n_leaves t * (n_leaves t - 1) / 2)) as [Hk|Hk].
+    - pose proof (tril_surj (n_leaves t) k Hk) as Hs. destruct (Matrix.tril_inv k) as [i j]. destruct Hs as (Hji & Hin & <-).
+      rewrite <- leaf_order_length in Hin.
+      destruct (nth_error (leaf_order t) i) as [a|] eqn:Ea; [|apply nth_error_None in Ea; lia].
+      destruct (nth_error (leaf_order t) j) as [b|] eqn:Eb; [|apply nth_error_None in Eb; lia].
+      assert (Hnd : NoDup (leaf_order t)).
+      { eapply Permutation_NoDup; [apply Permutation_sym, leaf_order_perm|]. apply rleaves_NoDup; auto. }
+      assert (Ha : In a (rleaves r)) by (eapply Permutation_in; [apply leaf_order_perm|eapply nth_error_In; eauto]).
+      assert (Hb : In b (rleaves r)) by (eapply Permutation_in; [apply leaf_order_perm|eapply nth_error_In; eauto]).
+      assert (Hra : rk t a = i) by (unfold rk; rewrite (index_of_nth_NoDup _ Hnd i a Ea); reflexivity).
+      assert (Hrb : rk t b = j) by (unfold rk; rewrite (index_of_nth_NoDup _ Hnd j b Eb); reflexivity).
+      assert (Hne : a <> b).
+      { intros ->. rewrite Hra in Hrb. lia. }
+      destruct (Hc' a b Ha Hb Hne) as (d & cnt & Hd & Hcell' & _).
+      destruct (dm_cell ladd_assoc ladd_comm ladd_0_l Hnamed Huniq m Hlens Hm a b Ha Hb Hne)
+        as (s & d2 & cnt2 & _ & _ & _ & Hd2 & Hcell & _).
+      rewrite Hd in Hd2. injection Hd2 as <- _. rewrite Hra, Hrb in *. congruence.
+    - rewrite (proj2 (nth_error_None _ _)) by lia. rewrite (proj2 (nth_error_None _ _)) by lia. reflexivity. }
+  destruct m as [s1 x1 c1], m' as [s2 x2 c2]. cbn [mtaxa msize mcells] in *. congruence.
+Qed.
+
+End RecLaws.
+
+
+End Core.
+End DM.
+
+(* ================================================================================================ *)
+(* 5. property C08, stated on the setting record [Good] (one tree, every live slot in it, leaves all  *)
+(*    named with pairwise distinct names); the algebra of lengths enters as explicit hypotheses       *)
+(* ================================================================================================ *)
+Section C08.
+Context {L : Type}.
+Variable O : LenOps L.
+Variables (t : @arena L) (root : nat) (r : rtree).
+Hypothesis G : Good t root r.
+
+Let HR := g_rep _ _ _ G.
+Let HN := g_nd _ _ _ G.
+Let HL := g_live _ _ _ G.
+Let Hnamed := g_named _ _ _ G.
+Let Huniq := g_uniq _ _ _ G.
+
+(* never a panic, never out of fuel; the fast variant always succeeds (missing lengths count 1.0) *)
+Theorem C08_no_panic :
+  (exists m, distance_matrix O t = Ok m /\
+     mtaxa m = stable_sort str_leb (map (lab t) (get_leaves t)) /\ msize m = n_leaves t /\
+     length (mcells m) = n_leaves t * (n_leaves t - 1) / 2) /\
+  ((exists m tc, distance_matrix_recursive O (tree_of t) = Ok (m, tc)) \/
+   distance_matrix_recursive O (tree_of t) = Err MissingBranchLengths).
+Proof.
+  split.
+  - destruct (dm_result O t root r HR HN HL Hnamed) as (m & Hm & H1 & H2 & H3 & _). eauto.
+  - apply (dmr_no_panic O t root r HR HN HL Hnamed Huniq).
+Qed.
+
+Section Laws.
+Hypothesis ladd_assoc : forall x y z, ladd O x (ladd O y z) = ladd O (ladd O x y) z.
+Hypothesis ladd_comm : forall x y, ladd O x y = ladd O y x.
+Hypothesis ladd_0_l : forall x, ladd O (l0 O) x = x.
+
+(* all branch lengths present: both computations return the same matrix, whose taxa are the sorted leaf
+   names and whose entries are the path lengths reported by get_distance *)
+Theorem C08_lengths :
+  (forall x, In x (ids r) -> x <> root -> edge_of t x <> None) ->
+  exists m tc,
+    distance_matrix O t = Ok m /\ distance_matrix_recursive O (tree_of t) = Ok (m, tc) /\
+    mtaxa m = stable_sort str_leb (map (lab t) (get_leaves t)) /\ msize m = n_leaves t /\
+    length (mcells m) = n_leaves t * (n_leaves t - 1) / 2 /\
+    forall a b, In a (rleaves r) -> In b (rleaves r) ->
+      exists d cnt, get_distance O t a b = Ok (Some d, cnt) /\ Matrix.dm_get O m (lab t a) (lab t b) = Ok d.
+Proof.
+  intros Hlens.
+  destruct (dm_result O t root r HR HN HL Hnamed) as (m & Hm & H1 & H2 & H3 & _).
+  destruct (dmr_cell O t root r HR HN HL Hnamed Huniq ladd_assoc ladd_comm Hlens) as (m' & tc & Hm' & _).
+  pose proof (dm_agree O t root r HR HN HL Hnamed Huniq ladd_assoc ladd_comm ladd_0_l Hlens m m' tc Hm Hm') as ->.
+  exists m, tc. repeat split; auto. intros a b Ha Hb. destruct (Nat.eq_dec a b) as [->|Hne].
+  - exists (l0 O), 0. split; [apply dist_self|apply get_diag].
+  - destruct (dm_cell O t root r HR HN HL ladd_assoc ladd_comm ladd_0_l Hnamed Huniq m Hlens Hm a b Ha Hb Hne)
+      as (s & d & cnt & _ & _ & _ & Hd & _ & Hg). eauto.
+Qed.
+
+(* no branch length at all: the fast computation returns path edge counts (as sums of 1.0) *)
+Theorem C08_topology :
+  (forall x, In x (ids r) -> edge_of t x = None) ->
+  exists m,
+    distance_matrix O t = Ok m /\
+    mtaxa m = stable_sort str_leb (map (lab t) (get_leaves t)) /\ msize m = n_leaves t /\
+    forall a b, In a (rleaves r) -> In b (rleaves r) -> a <> b ->
+      exists cnt, get_distance O t a b = Ok (None, cnt) /\
+                  Matrix.dm_get O m (lab t a) (lab t b) = Ok (lrep O cnt).
+Proof.
+  intros Hnol.
+  destruct (dm_result O t root r HR HN HL Hnamed) as (m & Hm & H1 & H2 & _).
+  exists m. repeat split; auto. intros a b Ha Hb Hne.
+  destruct (dm_topo O t root r HR HN HL ladd_assoc ladd_comm ladd_0_l Hnamed Huniq m Hnol Hm a b Ha Hb Hne)
+    as (s & ka & kb & _ & _ & _ & _ & Hd & _ & Hg). eauto.
+Qed.
+
+End Laws.
+End C08.
+
+Print Assumptions dm_empty.
+Print Assumptions dm_unnamed.
+Print Assumptions dm_no_panic.
+Print Assumptions dm_taxa.
+Print Assumptions rev_level_child_first.
+Print Assumptions dm_run.
+Print Assumptions cache_ok_shape.
+Print Assumptions dm_result.
+Print Assumptions branch_paths.
+Print Assumptions dm_lookup.
+Print Assumptions dm_cell.
+Print Assumptions dm_topo.
+Print Assumptions dmr_down.
+Print Assumptions dmr_up.
+Print Assumptions dmr_row.
+Print Assumptions dmr_outcome.
+Print Assumptions dmr_no_panic.
+Print Assumptions dmr_taxa.
+Print Assumptions dmr_cell.
+Print Assumptions dm_agree.
+Print Assumptions C08_no_panic.
+Print Assumptions C08_lengths.
+Print Assumptions C08_topology.
+
+(* ================================================================================================ *)
+(* 6. a concrete instance: the hypotheses are satisfiable and the model computes what is expected     *)
+(* ================================================================================================ *)
+Module Example.
+Definition ON : LenOps nat :=
+  Build_LenOps nat 0 1 Nat.add Nat.sub Nat.mul Nat.div (fun x => x) Nat.ltb Nat.eqb (fun n => n) 1000.
+Definition mk (i : nat) (nm : option str) (p : option nat) (ch : list nat) (e : option nat)
+              (es : list (nat * nat)) (d : nat) : @node nat :=
+  mkNode i nm p ch e None es d false.
+Definition A : str := [65%N]. Definition B : str := [66%N]. Definition C : str := [67%N].
+(* ((B:1,A:2):3,(C:4):5) *)
+Definition ex : @arena nat :=
+  [ mk 0 None None [1; 4] None [(1, 3); (4, 5)] 0;
+    mk 1 None (Some 0) [2; 3] (Some 3) [(2, 1); (3, 2)] 1;
+    mk 2 (Some B) (Some 1) [] (Some 1) [] 2;
+    mk 3 (Some A) (Some 1) [] (Some 2) [] 2;
+    mk 4 None (Some 0) [5] (Some 5) [(5, 4)] 1;
+    mk 5 (Some C) (Some 4) [] (Some 4) [] 2 ].
+Definition exr : rtree := RT 0 [RT 1 [RT 2 []; RT 3 []]; RT 4 [RT 5 []]].
+
+Lemma ex_good : Good ex 0 exr.
+Proof.
+  constructor.
+  - unfold exr.
+    repeat (econstructor; try reflexivity;
+            try (intros c nc Hin Hn; simpl in Hin; intuition; subst c; simpl in Hn; injection Hn as <-; reflexivity);
+            try (simpl; intros c Hc; repeat (destruct c as [|c]; simpl in *; try tauto; try congruence))).
+  - unfold exr, ids. simpl. repeat constructor; simpl; intuition; try discriminate.
+  - intros i (n & Hn & Hd). unfold exr, ids. simpl.
+    do 6 (destruct i as [|i]; [tauto|]). destruct i; discriminate.
+  - unfold exr. simpl. intros i Hi. intuition; subst; discriminate.
+  - unfold exr. simpl. repeat constructor; simpl; intuition; try discriminate.
+Qed.
+
+Example ex_fast : distance_matrix ON ex = Ok (mkDmat 3 [A; B; C] [3; 14; 13]).
+Proof. vm_compute. reflexivity. Qed.
+
+Example ex_recursive :
+  (match distance_matrix_recursive ON (tree_of ex) with Ok (m, _) => Some m | _ => None end) =
+  Some (mkDmat 3 [A; B; C] [3; 14; 13]).
+Proof. vm_compute. reflexivity. Qed.
+
+Example ex_C08 :
+  exists m tc,
+    distance_matrix ON ex = Ok m /\ distance_matrix_recursive ON (tree_of ex) = Ok (m, tc) /\
+    mtaxa m = stable_sort str_leb (map (lab ex) (get_leaves ex)) /\ msize m = n_leaves ex /\
+    length (mcells m) = n_leaves ex * (n_leaves ex - 1) / 2 /\
+    forall a b, In a (rleaves exr) -> In b (rleaves exr) ->
+      exists d cnt, get_distance ON ex a b = Ok (Some d, cnt) /\ Matrix.dm_get ON m (lab ex a) (lab ex b) = Ok d.
+Proof.
+  apply (C08_lengths ON ex 0 exr ex_good).
+  - intros; simpl; lia.
+  - intros; simpl; lia.
+  - intros; reflexivity.
+  - intros x Hx Hne. unfold exr, ids in Hx. simpl in Hx.
+    intuition; subst; try congruence; unfold edge_of; simpl; discriminate.
+Qed.
+End Example.
+
+Print Assumptions Example.ex_C08.
